@@ -12,960 +12,2518 @@ Definition show_fres (r : fres) : string :=
   end.
 Definition check (rs : list rune) : string := digest (show_fres (format_res rs)).
 Definition full (rs : list rune) : string := show_fres (format_res rs).
-Eval vm_compute in ("<<<M156>>>" ++ check (runes_of_ascii "packet  zchar
-    { char[]  string_ ,
-    // @lengthOf(
-    msg_type , match
-    roots // " ++ [27880; 37322]%N ++ runes_of_ascii "
-as metadata { 3: Logon
-, [""a\\"",""1"" , 3 ,
-00
-    , ""a\\"" ,7, 65535 , 3 ]
-    :x_y_z
-    , 0123456789 : o , ""\" ++ [233]%N ++ runes_of_ascii """ : x ""CRC32"" :
-Foo,
-    }, char Header`u8 x,` ,
-    } //	t
-options	{
-    } packet
-    //	t
-    As{zchar[
-    // @lengthOf(
-    10	] roots ,
-    char[7 ]
-calculatedFrom //
-@lengthOf( body ), char stringy	@lengthOf(metadata /// triple
-) ,
-Pad // trailing space 
-u128 , @calculatedFrom( ""it's"") Z9_ ,  match
-falsey	as /// triple
-MetaDataX
-    { 4294967296 : float,//x
-3 :
-    Pad 1
-:T,} /// triple
-,
-    @tag(
-3 ) char[]
-A @calculatedFrom( ""it's""
-) ,  o tag ,
-@lengthOf( x // packet A { u8 x, }
-) zchar[ 4294967296
-    ]
-    rootA // @lengthOf(
-`
-` , } root packet Logon {	repeat _x {leftPad  `crlf
-line` ,
+Eval vm_compute in ("<<<M3533>>>" ++ check (runes_of_ascii "options {
+    // c1
+LittleEndian // c2a
+  // c2b
+= // c3a
+  // c3b
+false // c4a
+  // c4b
+; // c5
+StringPrefixLenType = u16
+    // c8
+;
+    // c9
+ArrayPrefixLenType = // c11
+u8 // c12a
+  // c12b
+; // c13a
+  // c13b
+FixedStringPadFromLeft // c14a
+  // c14b
+=
+    // c15
+true ;
+    // c17
+FixedStringPadChar // c18
+= // c19a
+  // c19b
+' '
+    // c20
+; } // c22
+packet // c23
+Logon
+    // c24
+{
+    // c25
 }
-    , repeat i8 Packet  , MetaDataX`// not a comment`// " ++ [27880; 37322]%N ++ runes_of_ascii "
-, asx`two words` ,
-repeat lengthOf tag , @calculatedFrom( // `tick` ""quote"" 'q'
-""CRC32"" ) // @lengthOf(
-match repeatCount// packet A { u8 x, }
-as
-BodyLength { """ ++ [128512]%N ++ runes_of_ascii """ : len
-[
-    255
-, ""a\\"", 0123456789 , ""CRC32"", // " ++ [128512]%N ++ runes_of_ascii " emoji
-7, 42
-    // a // b
-    ]
-: repeatCount
-,
-},
-i64_ msg_type `crlf
-line` , }
-packet repeatCount{
-    @calculatedFrom(
-""a\""b"" )
-    match
-a1 as
-    matchKey// packet A { u8 x, }
-{00 : options1,
-    4294967296
-    : x_y_z , [3 ,
-""a	b"" ,0123456789
-] : i64_ ,
-0 : leftPad ,""`tick`"" :int [""" ++ [28040; 24687]%N ++ runes_of_ascii """ // @lengthOf(
-]
-// trailing space 
-/// triple
-: Z9_, }
-    , }
-")).
-Eval vm_compute in ("<<<M204>>>" ++ check (runes_of_ascii "packet i64_ {
-    @leftPad( ) @tag(	4294967296
-) repeat	string Logon `{ , }`
-    ,@lengthOf(
-    float )u16
-    //x
-    matchKey @lengthOf(
-body
-) , repeat
-    /// triple
-    char[  4294967296 ]
-tag , @lengthOf(asx )
+    // c26
+packet Reject { // c29
+InPx48
+    // c30
+{
+    // c31
+repeat string price // c34a
+  // c34b
+, // c35a
+  // c35b
+u32 // c36
+msgKind ,
+    // c38
 repeat
-    trueish , repeat
-    lengthOf
-len
-,// packet A { u8 x, }
-match asx
-    as
-    crc {
-    [ // a // b
-""" ++ [28040; 24687]%N ++ runes_of_ascii """
-// trailing space 
-// c
-, ""abc"" ] :
-roots
-, },	match
-    uint8x as
-repeatCount
-    { [
-0123456789
-    ]:
-    /// triple
-    Foo ,""a\""b""
-    : Packet
-    42  :
-    stringy , [ // `tick` ""quote"" 'q'
-0123456789 , 007
-] : f32a , //x
-42: x }
-    // @lengthOf(
-    ,
-@lengthOf( msg_type )
-uint8x , repeat metadata// " ++ [27880; 37322]%N ++ runes_of_ascii "
-,} MetaData float { char[ 42
-] Logon
-`a\` , stringy packetx , int32 pack,rootA
-x
-    , Logon Foo , u16 A
-//	t
-//x
-, } //x
-packet
-    //	t
-    Header{  @calculatedFrom(
-    ""1"" ) u
-,@tag( 65535
-// a // b
-// trailing space 
+    // c39
+InSide223 // c40a
+  // c40b
+{ // c41a
+  // c41b
+Logon , // c43a
+  // c43b
+repeat
+    // c44
+f64 Ref // c46
+, // c47a
+  // c47b
+string // c48a
+  // c48b
+tag7 ,
+    // c50
+} // c51
+, InClordid8 // c53a
+  // c53b
+{ // c54
+zchar[
+    // c55
+5 // c56
+]
+    // c57
+Qty // c58a
+  // c58b
+,
+    // c59
+u64 // c60
+x // c61
+, repeat // c63
+string // c64
+lastPx // c65a
+  // c65b
+, // c66a
+  // c66b
+}
+    // c67
+, }
+    // c69
+, // c70
+Logon // c71
+,
+    // c72
+i16 // c73a
+  // c73b
+lastPx , repeat // c76a
+  // c76b
+char[ 5 ] // c79a
+  // c79b
+clOrdID
+    // c80
+, // c81a
+  // c81b
+zchar[ // c82a
+  // c82b
+2 ] // c84
+Flags
+    // c85
+, // c86
+repeat
+    // c87
+string // c88
+Side2
+    // c89
+,
+    // c90
+}
+    // c91
+root // c92
+packet // c93
+Order
+    // c94
+{
+    // c95
+uint16
+    // c96
+sym // c97a
+  // c97b
+, // c98a
+  // c98b
+zchar[ 8 ] Side2 // c102a
+  // c102b
+, repeat // c104
+string
+    // c105
+clOrdID // c106
+, string // c108a
+  // c108b
+tag7 // c109a
+  // c109b
+,
+    // c110
+zchar[
+    // c111
+3 ]
+    // c113
+OrderId // c114
+, // c115a
+  // c115b
+zchar[
+    // c116
+4 ] seqNo // c119
+, u32 f1 // c122a
+  // c122b
+, // c123a
+  // c123b
+u32 // c124
+Acct @lengthOf( // c126a
+  // c126b
+Body
+    // c127
+) // c128a
+  // c128b
+, // c129a
+  // c129b
+match
+    // c130
+f1 // c131
+as // c132
+Body
+    // c133
+{ // c134a
+  // c134b
+58 // c135a
+  // c135b
+: // c136
+Reject , 180 // c139
+:
+    // c140
+Logon // c141a
+  // c141b
+, // c142a
+  // c142b
+}
+    // c143
+, // c144
+u32 // c145
+Px // c146
+@calculatedFrom( ""CRC32"" // c148
 )
-pack { string trueish `" ++ [28040; 24687; 31867; 22411]%N ++ runes_of_ascii "`
-    , match
-stringy
-    as tag
-{  ""a\\"" : float
-    // `tick` ""quote"" 'q'
-    ,
-    ""abc"" :Z9_ ,007 :	metadata, // c
-[ 10 ] :matchKey // " ++ [27880; 37322]%N ++ runes_of_ascii "
-, ""a	b"" : _x 7// " ++ [128512]%N ++ runes_of_ascii " emoji
-:Pad } ,  repeat body
-, f32 int , } ,  MetaDataX u128 `doc` , }
-options {}
+    // c149
+, } // c151a
+  // c151b
 ")).
-Eval vm_compute in ("<<<M1718>>>" ++ check (runes_of_ascii "options {
-    StringPrefixLenType = u32;
-    ArrayPrefixLenType = u8;
-    FixedStringPadFromLeft = false;
-}
-
-packet Logon {
-    i8 venue,
-    int16 f1,
-    zchar[8] Acct,
-    repeat InNote16 {
-        InQty73 {
-            float32 tag7,
-        },
-        f32 Acct,
-        zchar[5] sym,
-    },
-    uint16 Side2,
-    i32 lastPx,
-}
-
-packet Fill {
-    repeat InOrderid15 {
-        zchar[8] sym,
-        repeat char[2] OrderId,
-        repeat Logon,
-        InQty82 {
-            char[] Tail,
-            repeat Logon,
-            float64 price,
-            f64 Side2,
-        },
-        char[12] venue,
-        char[4] Px,
-    },
-    @rightPad('0')
-    char[2] venue,
-    InPrice99 {
-        InAcct72 {
-            u8 pad0,
-        },
-        u32 OrderId,
-        Logon,
-    },
-}
-
-root packet Reject {
-    zchar[9] msgKind,
-    u32 venue,
-    u16 seqNo @lengthOf(Body),
-    match venue as Body {
-        57 : Fill,
-        8 : Logon,
-    },
-    u16 Tail @calculatedFrom(""CR\
-        C32""),
-}")).
-Eval vm_compute in ("<<<M1430>>>" ++ check (runes_of_ascii "options {
-    LittleEndian = true;
-    StringPrefixLenType = u32;
-    FixedStringPadChar = '0';
-}
-packet Logout {
-    repeat InMsgkind49 {
-        u8 pad0,
-    },
-    repeat char[5] seqNo,
-    repeat u8 price,
-}
-packet Party {
-    zchar[7] Qty,
-}
-packet Logon {
-    repeat InRef10 {
-        string price,
-        char[] sym,
-        repeat Logout,
-    },
-    repeat char[3] count,
-    repeat Party,
-    char[] tag7,
-    @rightPad('0') char[2] clOrdID,
-}
-packet Order {
-    InTail13 {
-        Party,
-    },
-    repeat char[4] count,
-}
-root packet Cancel {
-    Logout,
-    @leftPad('0') char[9] msgKind,
-    string lastPx,
-    string tag7,
-    zchar[1] OrderId,
-    repeat Party,
-    u16 sym,
-    u16 Acct @lengthOf(Body),
-    match sym as Body {
-        [24, 44] : Logout,
-        160 : Order,
-        91 : Logon,
-        43 : Party,
-    },
-    u16 Tail @calculatedFrom(""CR\
-C32""),
-}
-")).
-Eval vm_compute in ("<<<M130>>>" ++ check (runes_of_ascii "
-packet
-    o {// trailing space 
-body {
-string options1@lengthOf(int ) ,
-    // " ++ [27880; 37322]%N ++ runes_of_ascii "
-    repeat u
-{ match  tag
-    as
-BodyLength { [	""" ++ [128512]%N ++ runes_of_ascii """
-, /// triple
-""`tick`"" ,
-    // @lengthOf(
-    ""packet"" ,
-""a\\"" ,65535
-, 0123456789 // trailing space 
-]: u
+Eval vm_compute in ("<<<M807>>>" ++ check (runes_of_ascii "packet  options1
+{ @rightPad ( ) @lengthOf( As // c
+)
 // `tick` ""quote"" 'q'
 // c
-""a\\"" : rootA ,
-    """ ++ [128512]%N ++ runes_of_ascii """: Foo 3
-:  uint8x ,	} , match leftPad as // `tick` ""quote"" 'q'
-a1
-    {1 : //	t
-Header
+repeat rootA { msg_type @calculatedFrom( ""\n""
+    ) /// triple
+`line1
+line2`
+,}
+, //	t
+@calculatedFrom(
+""\n"" ) @leftPad ( '0' )	match tag
+as f32a {
+    [ ""\n""]
+    :
+    Z9_	, 42 :trueish , ""abc"": a1  ,
+[  10//
+, """ ++ [233]%N ++ runes_of_ascii "t" ++ [233]%N ++ runes_of_ascii """] : A ,
+    } ,  T u8x`" ++ [28040; 24687; 31867; 22411]%N ++ runes_of_ascii "` , } packet Header
+{ chars
+    /// triple
+    { zchar[ 255// c
+] Pad@lengthOf(
+i8i8 )	`u8 x,`
+,} , } packet u{
+@lengthOf( options1
+    // " ++ [128512]%N ++ runes_of_ascii " emoji
+    ) int32 repeatCount , match Z9_ as a1// trailing space 
+{ ""a	b""
+    : As , [
+""{,}""	,""it's"" , ""x y"", 0
+// @lengthOf(
+// @lengthOf(
+,	""" ++ [233]%N ++ runes_of_ascii "t" ++ [233]%N ++ runes_of_ascii """  , ""{,}"" ,
+0 ,
+    //x
+    007
+]:
+    falsey , """"	: MetaDataX ,
+    [ """ ++ [28040; 24687]%N ++ runes_of_ascii """ ,65535
+,
+0123456789 , ""a\\"" ]
+    :float, // " ++ [128512]%N ++ runes_of_ascii " emoji
+""CRC32""
+:	Pad ,
+// " ++ [128512]%N ++ runes_of_ascii " emoji
+// `tick` ""quote"" 'q'
+[
+    //
+    """ ++ [128512]%N ++ runes_of_ascii """ ,""a\""b"" //x
+, ""x y"" ,00
+,""a\\"" , 10 // c
+,//x
+""packet""]:	leftPad // 50% %s
 ,
 }
-, },
-    }
 ,
-    chars , repeatCount body
-//	t
-// " ++ [128512]%N ++ runes_of_ascii " emoji
-`a\` ,}	packet metadata {
-@rightPad ('0' // " ++ [27880; 37322]%N ++ runes_of_ascii "
+    // c
+    Header
+{ match
+    uint8x
+as Packet {1
+    : pack , }// @lengthOf(
+,} ,	repeat char[]  packetx , Z9_@lengthOf(f32a
 )
-@leftPad
-( //x
-'0' ) @calculatedFrom( ""packet"") match o as	Logon{ """"
-: A, [
-    007// c
-, 7  , 1
-, """"// trailing space 
-,  42, ""a	b""]  :	A	""it's"" :
-    _x,  },@lengthOf(//x
-Header
-)char[  3 ] i8i8@lengthOf( int )	,char[]Packet @calculatedFrom( ""a	b"")
-, leftPad ,
-    }packet charz { }")).
-Eval vm_compute in ("<<<M157>>>" ++ check (runes_of_ascii "packet Packet { zchar[ /// triple
-00] u
-@lengthOf(tag
-    ),	repeat // " ++ [128512]%N ++ runes_of_ascii " emoji
-string u8x `u8 x,`
-    , packetx { repeat uint8 leftPad `doc` ,
-}	,// " ++ [27880; 37322]%N ++ runes_of_ascii "
-@tag(	0123456789
-)char[] chars@lengthOf(rootA
-// trailing space 
-// c
-) `{ , }` , uint8 Packet ,
-repeat a1 `two words`
-//
-//
-,@calculatedFrom(
-    //	t
-    ""it's"") string_ {u16 A
-// packet A { u8 x, }
+    // " ++ [128512]%N ++ runes_of_ascii " emoji
+    ,
+    // c
+    @calculatedFrom(
+    """"	)
+    char
+    repeatCount @calculatedFrom( ""// no comment"" )	,	} root packet // @lengthOf(
+len { repeat
+Logon rootA  `{ , }` //	t
+, @rightPad ( '0')zchar[ 0123456789]
+    calculatedFrom ,repeat BodyLength{ string  a1 `
+`, Packet
 // a // b
-`crlf
-line` , repeat
-string // " ++ [27880; 37322]%N ++ runes_of_ascii "
-uint8x
-    , string u128 ,
-    } , }	packet MetaDataX{
+// `tick` ""quote"" 'q'
+Z9_ , charz len, char[
+    007 ] metadata
+@calculatedFrom( """"
+) , } ,// c
+match As as MetaDataX{
+00 : u// @lengthOf(
+, 00
+    :  Foo ,7	:charz 007:	charz	[
+    42 , ""a\""b"" ]:len
+    } ,
+@leftPad( '\x00'
+    ) zchar[ 0 ] body
+@lengthOf( asx
+    )
+, u32 Pad, @rightPad //
+( '\x00')
+    rootA Foo
+, }
+options{} //")).
+Eval vm_compute in ("<<<M896>>>" ++ check (runes_of_ascii "// " ++ [27880; 37322]%N ++ runes_of_ascii "
+packet len // @lengthOf(
+{
+repeat // " ++ [27880; 37322]%N ++ runes_of_ascii "
+repeatCount
+    int `" ++ [233]%N ++ runes_of_ascii "`  ,
+    falsey	@lengthOf(
+roots) , @calculatedFrom( ""a\""b"" ) char[
+    4294967296 ] len//
+@calculatedFrom(
+    ""`tick`"" ) ,@tag( 3
+    )
+    match body as
     //x
-    @tag( 0123456789 ) char[ // packet A { u8 x, }
-3
-    ] Packet , } MetaData
-    repeatCount {  } root packet  u8x
-    // `tick` ""quote"" 'q'
-    { x_y_z// " ++ [27880; 37322]%N ++ runes_of_ascii "
-@lengthOf(
-    // a // b
-    o ) `two words` , // " ++ [27880; 37322]%N ++ runes_of_ascii "
-repeat zchar[ 0123456789
-] len `" ++ [233]%N ++ runes_of_ascii "` , }
-//
-")).
-Eval vm_compute in ("<<<M349>>>" ++ check (runes_of_ascii "root
-packet packetx{ match x
-as repeatCount // " ++ [128512]%N ++ runes_of_ascii " emoji
-{ 65535 //x
-: i8i8 10 :
-x_y_z 42// @lengthOf(
-: packetx 0123456789
-:metadata[ ""\" ++ [233]%N ++ runes_of_ascii """]
+    options1
+{
+""it's"" :calculatedFrom """": Foo , 0123456789
+// 50% %s
+// " ++ [27880; 37322]%N ++ runes_of_ascii "
+:
+// c
+// trailing space 
+zchar , [255// " ++ [27880; 37322]%N ++ runes_of_ascii "
+, ""abc"" , 42 ,007 ,
+    //x
+    255
+, 00, ""a\""b"" ] :
+    Header 7
     :
-    x_y_z
-,
-""a\\""
-:i8i8
-, } , stringy { // c
-stringy
-    i64_ , repeat Header As
-    `two words` ,
-    } , repeat char[ 007// `tick` ""quote"" 'q'
-] u8x
-    `line1
-line2` , @lengthOf( charz )
+    asx , },  @rightPad ( ) repeat asx
+{
+// " ++ [27880; 37322]%N ++ runes_of_ascii "
+// trailing space 
+match	Pad as As { // " ++ [27880; 37322]%N ++ runes_of_ascii "
+10
+    : trueish
+    , 7 :  Packet
+    //	t
+    , 007 :// `tick` ""quote"" 'q'
+float ,  """" : string_ , [ 10 , 1,
     // packet A { u8 x, }
-    @leftPad (
-'0' ) int16 BodyLength ,  repeat
-float32 repeatCount	, match trueish as MetaDataX
-    { ""a	b""
-    // a // b
-    :
-    x	,	}
-,char[ 0 ] matchKey @lengthOf( float ) , @lengthOf( i64_)@lengthOf( repeatCount
-) // " ++ [27880; 37322]%N ++ runes_of_ascii "
+    ""`tick`"" ]// c
+: lengthOf// c
+} // a // b
+,
+repeat
+u64 tag `u8 x,`
+    ,match
+    asx as lengthOf { """ ++ [28040; 24687]%N ++ runes_of_ascii """ : chars, [ ""a\\"" , ""a\\""
+    //
+    ]: repeatCount ,
+[ 42, ""it's""
+    ] :float [ 42, ""a	b""//
+,007 , 0123456789 , 007
+    ,10 ] :
+Packet ,
+[ ""\n""
+    //x
+    , """ ++ [233]%N ++ runes_of_ascii "t" ++ [233]%N ++ runes_of_ascii """ ] : body } ,
+zchar[	4294967296]  MetaDataX
+    ,
+}
+    // " ++ [27880; 37322]%N ++ runes_of_ascii "
+    ,@lengthOf(T // 50% %s
+)u64 Header  `crlf
+line` ,
+match x_y_z as
+// " ++ [128512]%N ++ runes_of_ascii " emoji
+//	t
+repeatCount { ""a\\"" :	tag ,"""":Foo
+,""a	b"":MetaDataX ""\" ++ [233]%N ++ runes_of_ascii """ :// a // b
+charz , [ 65535,	65535]: roots
+,  4294967296 : A  , }  ,
+    // " ++ [27880; 37322]%N ++ runes_of_ascii "
+    @tag(  3 ) // `tick` ""quote"" 'q'
+match u8x as
+    i8i8{
+// `tick` ""quote"" 'q'
+//
+[ 65535,1 ]
+    :crc ,[
+    ""x y"" , ""`tick`"" ,3
+    , 00
+    , ""CRC32""
+    , 00 , ""1""
+    ] : calculatedFrom// a // b
+0	:options1 ,0
+    :a1 ,
+}, }")).
+Eval vm_compute in ("<<<M653>>>" ++ check (runes_of_ascii "
+root packet
+    rootA { int8 len `// not a comment` ,
+MetaDataX {match options1 as // @lengthOf(
+a1
+{1	: Z9_ , [ 7
+] : crc
+// " ++ [27880; 37322]%N ++ runes_of_ascii "
+// trailing space 
+,0	: u ,
+    //x
+    [
+    ""\n"" ,
+    ""abc"" ]: repeatCount
+    [ ""\n""
+    , 0 , 42 ,""{,}"" ]
+:x_y_z
+, }
+    , repeat Foo asx ,
+    } , f64 roots `tab	here`  , }
+    MetaData
+    i8i8 { matchKey Foo , } packet // " ++ [128512]%N ++ runes_of_ascii " emoji
+asx
+    {
+u128	{
+rootA {
+    repeat lengthOf
+    MetaDataX , string_ @calculatedFrom( ""it's""),	repeat float32 msg_type
+    // 50% %s
+    `" ++ [233]%N ++ runes_of_ascii "`, f32 // " ++ [128512]%N ++ runes_of_ascii " emoji
+metadata
+    , }, rootA, //x
+float64 float // " ++ [27880; 37322]%N ++ runes_of_ascii "
+`u8 x,` ,zchar {
+char
+body	,	} ,
+}, } root packet Header
+{
+repeat string i8i8, } packet
+u { matchKey	{ rootA
+    ,	string_ stringy ,} , BodyLength`// not a comment` , @calculatedFrom( ""1"")	match //
+uint8x as int { [ ""1"" // trailing space 
+]: trueish ,
+    }
+    , repeat crc  x `
+`
+    ,
+    repeat// packet A { u8 x, }
+T,
+    tag @lengthOf( chars	) ,
+repeat options1
+uint8x `crlf
+line`
+, @calculatedFrom( ""CRC32""	)
+// a // b
+// 50% %s
+@tag( 3 )// " ++ [128512]%N ++ runes_of_ascii " emoji
+@rightPad ( // packet A { u8 x, }
+' ' ) float @lengthOf(len
+) ,@calculatedFrom( // " ++ [27880; 37322]%N ++ runes_of_ascii "
+""// no comment"" )
+    /// triple
+    @calculatedFrom( ""a\""b""
+    ) @calculatedFrom( ""\n"") a1 calculatedFrom
+    //	t
+    ,@rightPad
+( '0'	) A , }
+// 50% %s
+")).
+Eval vm_compute in ("<<<M1102>>>" ++ check (runes_of_ascii "
+options// trailing space 
+{uint8x = //	t
+""a\""b"" ; rootA
+= 255 packetx//
+= uint64 ; options1 =
+'0'; } MetaData roots{zchar[ 0123456789 // " ++ [128512]%N ++ runes_of_ascii " emoji
+]string_ ,}
+    packet A { /// triple
+@calculatedFrom(""abc"") options1	options1 ,
+} root packet BodyLength { @lengthOf(stringy) @tag( //	t
+007) @leftPad( '0'
+    )repeat u {char[0123456789
+    ]	float//x
 @lengthOf(
-float )f32 Z9_ , }")).
-Eval vm_compute in ("<<<M19>>>" ++ check (runes_of_ascii "//
+BodyLength
+),char[
+1
+    ] MetaDataX
+    // @lengthOf(
+    `crlf
+line`	, lengthOf // `tick` ""quote"" 'q'
+`crlf
+line` , }	,
+    @tag( 0 ) @rightPad ( '0' )  @tag(
+    1 ) msg_type{chars @lengthOf(
+trueish ) , repeat int64
+i8i8 `// not a comment`
+, i8i8	@lengthOf(
+repeatCount )	,
+string	charz
+`tab	here`,}, repeat
+u128
+`crlf
+line` , @lengthOf( _x  ) match int as f32a	{ [""a\""b"" ,
+10
+]  : Logon ,
+    [	""" ++ [128512]%N ++ runes_of_ascii """
+,
+65535 ]
+:A, } ,matchKey @lengthOf(
+    falsey
+) ,
+    @lengthOf( metadata
+)
+repeat  Z9_ `two words`
+, //	t
+@tag( 4294967296 ) body @lengthOf(  float
+) , repeat  x_y_z{ match zchar as string_ { /// triple
+""" ++ [233]%N ++ runes_of_ascii "t" ++ [233]%N ++ runes_of_ascii """ // " ++ [27880; 37322]%N ++ runes_of_ascii "
+:u8x , 4294967296 : matchKey,},
+T
+    // c
+    { u128 , } , match // packet A { u8 x, }
+T
+as x_y_z {42:
+    zchar } ,
+} ,
+    } packet // a // b
+len
+// " ++ [27880; 37322]%N ++ runes_of_ascii "
+// c
+{	repeat crc stringy
+, } // " ++ [128512]%N ++ runes_of_ascii " emoji")).
+Eval vm_compute in ("<<<M4249>>>" ++ check (runes_of_ascii "// packet A { u8 x, }
+MetaData f32a {
+    /// triple
+    char[0] i8i8 `
+    `,
+    f64 a1,
+    i32 rootA `it's`,
+    f64 stringy `it's`,
+    charz packetx `
+    `,
+}
+
+packet asx {
+    repeat u64 metadata `u8 x,`,
+    // 50% %s
+    @lengthOf(calculatedFrom)
+    repeat options1 {
+        BodyLength {
+            // `tick` ""quote"" 'q'
+            // 50% %s
+            zchar[3] stringy `doc`,//	t
+            charz {
+                repeat uint16 metadata `crlf
+                line`,
+                _x len `100% of %d`,
+                int @lengthOf(metadata),
+            },
+            zchar[42] i8i8 `crlf
+            line`,
+        },
+        Foo,
+        repeat msg_type,
+        repeat u8 msg_type,
+        // c
+    },
+    @leftPad(' ')
+    repeat x_y_z {
+        // 50% %s
+        string A @calculatedFrom(""packet"") `u8 x,`,
+    },
+    uint8 A @calculatedFrom(""CRC32""),
+    u8x x_y_z,
+    @rightPad('0')
+    match o as asx {
+        [65535, ""a	b""] : tag,
+        //	t
+        0 : matchKey,
+        4294967296 : o,
+        ""it's"" : _x,
+    },
+    repeat uint64 Header,
+}
+
+MetaData uint8x {
+    zchar[0] x_y_z,
+}")).
+Eval vm_compute in ("<<<M1301>>>" ++ check (runes_of_ascii "root packet
+leftPad { uint16 i64_ , //
+@tag(007
+)
+@rightPad (' ' ) @calculatedFrom( ""\n"" ) repeat zchar {
+repeat calculatedFrom ,} , }
+MetaData repeatCount{ /// triple
+trueish
+//
+// " ++ [128512]%N ++ runes_of_ascii " emoji
+trueish`it's` ,i64_ MetaDataX`
+` ,i64 Foo	, uint64 uint8x ,  }
+root packet Foo {	repeat zchar[4294967296 ]
+    Z9_
+`tab	here` ,}packet float
+    { match u128
+as Foo { 7
+    : A ,[  007 , // trailing space 
+0 /// triple
+]
+: charz,	} , @tag(
+    // trailing space 
+    65535 ) zchar[1 ]
+float `crlf
+line`,
+/// triple
+// trailing space 
+@lengthOf(body	) u8 Foo// @lengthOf(
+`" ++ [28040; 24687; 31867; 22411]%N ++ runes_of_ascii "` , @leftPad ('\x00'
+    ) BodyLength
+    {
+repeat
+zchar[ 255]
+    lengthOf,
+    uint16 zchar@calculatedFrom( """ ++ [233]%N ++ runes_of_ascii "t" ++ [233]%N ++ runes_of_ascii """ ) , repeat u8
+// a // b
+// " ++ [128512]%N ++ runes_of_ascii " emoji
+rootA
+    ,
+    asx @calculatedFrom(""" ++ [233]%N ++ runes_of_ascii "t" ++ [233]%N ++ runes_of_ascii """ ) `" ++ [28040; 24687; 31867; 22411]%N ++ runes_of_ascii "` , // c
+}
+, @lengthOf( asx )
+repeat uint8x { repeat Header	{  zchar[ 0123456789]
+    x_y_z	@calculatedFrom( """ ++ [28040; 24687]%N ++ runes_of_ascii """ )
+,
+}
+    ,	} , /// triple
+char[ // c
+255 ] Pad`" ++ [233]%N ++ runes_of_ascii "` , } MetaData body { zchar[ 1
+    //x
+    ]
+    metadata `" ++ [233]%N ++ runes_of_ascii "`
+    ,	u Z9_ ,
+int16 x
+    , falsey int
+`a\`, }")).
+Eval vm_compute in ("<<<M453>>>" ++ check (runes_of_ascii "root
+    packet tag {float float ,char[] calculatedFrom @calculatedFrom(""packet""
+)`say ""hi""` , int8
+pack @lengthOf(	A),@tag( 255// 50% %s
+) @calculatedFrom( ""abc""	)@lengthOf( repeatCount)
+string Logon  `" ++ [233]%N ++ runes_of_ascii "`	, uint16 u @lengthOf(
+tag) // trailing space 
+`two words`,
+    @tag( 4294967296 )  @calculatedFrom(
+""x y""
+    )@tag( 7) zchar[ 00] trueish ,	repeat i8i8	{ i64 a1`{ , }`,
+}  , }// c
+packet tag{ //	t
+repeat repeatCount {
+    // 50% %s
+    i8i8 @calculatedFrom(
+    ""// no comment"" ) `" ++ [28040; 24687; 31867; 22411]%N ++ runes_of_ascii "` //x
+,
+char[] matchKey@calculatedFrom( """ ++ [233]%N ++ runes_of_ascii "t" ++ [233]%N ++ runes_of_ascii """
+// c
+//
+) // @lengthOf(
+`line1
+line2`,
+}
+, repeat zchar[ 42 ] body , @calculatedFrom( """ ++ [233]%N ++ runes_of_ascii "t" ++ [233]%N ++ runes_of_ascii """ )
+@calculatedFrom( //x
+""\n"")
+@leftPad ( '0'
+) match tag
+    as len  {""CRC32""
+:_x
+[ """" // c
+]
+: matchKey, }
+,
+@lengthOf( i8i8  )zchar[ 00 ] pack@calculatedFrom(
+""1"" ) , pack
+    {
+stringy `doc`
+, // `tick` ""quote"" 'q'
+match f32a//x
+as calculatedFrom { [ // " ++ [27880; 37322]%N ++ runes_of_ascii "
+""a	b""
+, 00  ,007	, ""a	b""
+    ]: u8x } /// triple
+,	}
+, } // a // b")).
+Eval vm_compute in ("<<<M1339>>>" ++ check (runes_of_ascii "root
+    // trailing space 
+    packet o{char[]_x `
+` ,repeat f32 tag
+, string
+leftPad `" ++ [233]%N ++ runes_of_ascii "` ,
+@calculatedFrom(
+""" ++ [233]%N ++ runes_of_ascii "t" ++ [233]%N ++ runes_of_ascii """ //	t
+) match
+    int as x_y_z	{1 : A, 7:
+// `tick` ""quote"" 'q'
+// `tick` ""quote"" 'q'
+body
+, [
+/// triple
+// c
+""a\\"" ,
+65535]
+: zchar  ""`tick`""// 50% %s
+: pack,} , stringy
+    @lengthOf( msg_type ) , falsey BodyLength
+, char[] x_y_z
+@lengthOf( options1 ) // packet A { u8 x, }
+`tab	here` , repeat i8i8{repeat Header
+{ repeatCount @calculatedFrom( ""1"" )
+    `" ++ [233]%N ++ runes_of_ascii "` ,}	, }  , char[ 007] f32a `tab	here`,
+    } MetaData
+calculatedFrom
+    { tag falsey`line1
+line2`
+    ,}
+    // " ++ [27880; 37322]%N ++ runes_of_ascii "
+    root packet	matchKey {@tag(
+    42
+//x
+// trailing space 
+)metadata ,@lengthOf(int ) @lengthOf( string_ )char[ 10 ] options1``, packetx { zchar[ 10// `tick` ""quote"" 'q'
+] i64_,// 50% %s
+}
+,@tag(	007 ) @leftPad ( '0') float64 BodyLength ,  } options { f32a = ""abc"" ;
+    }root
 packet
+    roots	{int32 x_y_z`crlf
+line` , }
+")).
+Eval vm_compute in ("<<<M1351>>>" ++ check (runes_of_ascii "packet Logon {
+@rightPad (  )
+    int64 roots@calculatedFrom(  ""\" ++ [233]%N ++ runes_of_ascii """ // @lengthOf(
+) , string
+rootA `" ++ [28040; 24687; 31867; 22411]%N ++ runes_of_ascii "` , A@lengthOf( float ) ,
+@lengthOf( u128 ) Packet
+    @lengthOf( x_y_z )	`` , @lengthOf(
+    i8i8//	t
+) chars { falsey /// triple
+@lengthOf( repeatCount ) `it's` ,  } , MetaDataX {
+match
+    pack as
+Z9_ {
+[ 1 , 4294967296
+    ,  42 , //x
+255
+    ,
+""" ++ [233]%N ++ runes_of_ascii "t" ++ [233]%N ++ runes_of_ascii """ ,""packet"" ] : options1
+    // `tick` ""quote"" 'q'
+    [ 1 ,""" ++ [28040; 24687]%N ++ runes_of_ascii """
+    , ""\" ++ [233]%N ++ runes_of_ascii """ ] : T ,}  ,
+falsey
+@calculatedFrom( ""// no comment""
+    ) ,/// triple
+repeat body {
+repeat metadata `say ""hi""` ,
+    match // packet A { u8 x, }
+f32a as f32a  {[1 , 3	] :uint8x ,
+    } ,u  {
+repeat string zchar
+,
+// @lengthOf(
+// 50% %s
+} //	t
+,
+match i8i8 as
 /// triple
 // a // b
-chars {int16 int ,	match calculatedFrom as
-    zchar { 4294967296:
-i8i8 , [
-""// no comment"" ] :stringy, ""a\""b"" :	u128 007
-// @lengthOf(
-//x
-: msg_type , 65535
-    : a1 ,""""	: u128} ,
-Packet @lengthOf( f32a )
-`it's` , int16 stringy`u8 x,` , roots @lengthOf( trueish
-) , match charz as A
-    {	10
-    :A ,
-} ,  string
-    Header@calculatedFrom( ""`tick`"" )`doc` , }MetaData	roots { asx metadata,	int64 MetaDataX , char[  42 ] o `// not a comment` ,
-    f32 packetx ,rootA As `it's` , msg_type tag
-, }
+packetx // a // b
+{0 : BodyLength ""a	b""  :Packet,// `tick` ""quote"" 'q'
+} , }
+, zchar[ 0
+    ] body @calculatedFrom( ""\n""	),
+    }  , }
+root  packet
+Z9_{
+}
 
 ")).
-Eval vm_compute in ("<<<M1884>>>" ++ check (runes_of_ascii "  root packet  o
-	{ 
-}	packet
-    T{zchar[ 4294967296 ]  asx
-`say ""hi""`
+Eval vm_compute in ("<<<M584>>>" ++ check (runes_of_ascii "  root packet	len {
+    match body as// @lengthOf(
+a1 { 10 :
+uint8x , } , char[ 10 ] zchar ,roots @lengthOf(u )
+    `" ++ [28040; 24687; 31867; 22411]%N ++ runes_of_ascii "`
+,
+float@calculatedFrom(  ""a	b"") ,	@lengthOf(/// triple
+Packet)
+    zchar @lengthOf(body )
+    `
+`,// `tick` ""quote"" 'q'
+@tag( // c
+255 )
+repeat Packet { repeat char
+falsey `" ++ [28040; 24687; 31867; 22411]%N ++ runes_of_ascii "` ,repeat//	t
+T	{ char[] chars
+, // @lengthOf(
+repeat f32a{ repeat char[]	falsey`{ , }` , } , }
+    ,
+// a // b
+// " ++ [27880; 37322]%N ++ runes_of_ascii "
+string
+    // packet A { u8 x, }
+    int
+,
+    match float as i64_ { // 50% %s
+[ 4294967296 ,
+""\n""
+]
+:A ,
+    ""packet"" :roots	3 :
+float
+,
+    // `tick` ""quote"" 'q'
+    [ 0123456789
+    // packet A { u8 x, }
+    ,255 , 0 , ""abc"" ,
+    """ ++ [128512]%N ++ runes_of_ascii """ ] :charz ,} , } ,
+}
+root
+    packet
+// trailing space 
+// c
+tag {
+    }
+MetaData repeatCount{ // " ++ [128512]%N ++ runes_of_ascii " emoji
+roots
+Logon
+    `` ,
+    char[
+4294967296
+] packetx ,
+uint32 Foo
+    , //x
+} 	 ")).
+Eval vm_compute in ("<<<M3836>>>" ++ check (runes_of_ascii "options {
+    roots = zchar[7];
+}
 
-, } 
-MetaData 
-f32a 
-{ f64 MetaDataX `say ""hi""`
-	    // packet A { u8 x, }
-      ,  x_y_z
+root packet chars {
+    u8x uint8x,
+    // @lengthOf(
+}
 
-rootA `doc` , //	t
-	  u32 repeatCount 
-    /// triple
-  ,
-	string	T 
-,u8x
+root packet Header {
+    @tag(00)
+    match chars as _x {
+        4294967296 : i64_,
+    },
+    zchar[00] Header,
+    Header `{ , }`,
+    i64_ Packet,
+    @lengthOf(a1)
+    @rightPad()
+    @lengthOf(Header)
+    repeat int8 trueish `doc`,
+    @calculatedFrom(""a\""b"")
+    repeat Foo,
+    @leftPad()
+    zchar[3] u8x,
+    @rightPad()
+    repeat matchKey {
+        // a // b
+        i32 roots,
+        options1 {
+            Foo @calculatedFrom(""1"") `u8 x,`,
+            i64_,
+            i64_ `doc`,
+        },
+    },
+    match matchKey as f32a {
+        """ ++ [128512]%N ++ runes_of_ascii """ : body,
+    },
+    repeat u lengthOf,
+}
 
-u`doc` ,	} options
-{ x_y_z
-
-= 0 }// packet A { u8 x, }
-  root packet // c
-  	MetaDataX
-	{@calculatedFrom( ""abc"")
+packet Header {
+    // packet A { u8 x, }
+    @lengthOf(a1)
+    Header @calculatedFrom(""\n"") `line1
+        line2`,
+}")).
+Eval vm_compute in ("<<<M1193>>>" ++ check (runes_of_ascii "root
+packet	msg_type {
     @calculatedFrom(
-	""" ++ [128512]%N ++ runes_of_ascii """  ) @tag(	3)
-
-    charz 
-@lengthOf( Packet
+// " ++ [27880; 37322]%N ++ runes_of_ascii "
+// a // b
+""// no comment""
+    ) uint32 i8i8 // 50% %s
+, //
+a1 { BodyLength
+,
+    } , //	t
+}	root packet uint8x	{ a1@lengthOf( Logon ) ,@lengthOf(  metadata	)@tag(
+    1
 )
+@calculatedFrom(""abc"" ) char[ 7 ]string_@lengthOf( x_y_z ) ,
+    // trailing space 
+    Packet // a // b
+`" ++ [233]%N ++ runes_of_ascii "`
+,
+    @tag(
+1)char[]asx /// triple
+@calculatedFrom(
+""`tick`""  )	,
+// trailing space 
+// trailing space 
+} root
+packet BodyLength{ //x
+@leftPad /// triple
+(  )/// triple
+repeat i8i8
+    `" ++ [233]%N ++ runes_of_ascii "` ,
+@rightPad () repeat
+tag { repeat float32
+    // 50% %s
+    chars// " ++ [27880; 37322]%N ++ runes_of_ascii "
+`{ , }` ,} , @calculatedFrom( ""1"" ) f32a metadata ``
+    , @tag( 00 ) @calculatedFrom( """ ++ [28040; 24687]%N ++ runes_of_ascii """
+    ) i64  u
+    // c
+    @calculatedFrom(  ""CRC32"" )
+// trailing space 
+//x
+,}")).
+Eval vm_compute in ("<<<M4104>>>" ++ check (runes_of_ascii "
+options
+
+    {
+	leftPad  = ""\n""
+    ;
+
+    u  = uint8 ;}
+	MetaData
+msg_type 
+{	} MetaData  Header { zchar[
+    65535 ]// trailing space 
+
+	chars `100% of %d` 	 //x
+    ,
+
+options1 T ,
+}
+	packet	charz
+
+{
+match 
+falsey as 
+matchKey  {""""
+:  Logon 
+,	""`tick`""
+:
+a1	,  ""1""
+    :stringy 
+,
+
+    ""// no comment""
+:
+Z9_
+	,  00 
+: crc  ,7 :
+
+packetx ,
+
+} , 
+repeat u32  metadata
+	, 
+char[
+    007
+	]	u	`a\`
+    ,
+
+@calculatedFrom( ""it's"" 
+)
+	@lengthOf(
+	charz
+
+    )match leftPad as 
+	    // " ++ [27880; 37322]%N ++ runes_of_ascii "
+
+/// triple
+int{00
+	: x  ,
+	}  , // c
+	@tag( //x
+
+10  )
+	match
+u128
+
+as	Logon	{
+    00
+    :
+	tag  ,
+
+    }
+
+    , match x
+	as
+MetaDataX
+{  [ 
+1
+
+    ] :
+body } ,	} 
+packet
+
+    BodyLength
+	// " ++ [128512]%N ++ runes_of_ascii " emoji
+
+	// c
+		{
+	}
+
+")).
+Eval vm_compute in ("<<<M3957>>>" ++ check (runes_of_ascii "  root
+
+packet 
+repeatCount
+{ // trailing space 
+  @lengthOf( 
+/// triple
+  i8i8)
+
+    char[ 00
+]
+    u
+    `say ""hi""`,
+
+u32 metadata ,
+
+char[ 10 
+]
+    i64_ @lengthOf(
+	Packet ) , repeat
+	char[0123456789
+    ]  /// triple
+	float	, @calculatedFrom(  ""it's""	)
+    u8
+    x @calculatedFrom(
+    ""CRC32""
+) , 
+}
+    packet
+
+    matchKey	{
+
+}packet As {}
+
+packet chars
+{// " ++ [128512]%N ++ runes_of_ascii " emoji
+
+  @lengthOf(Packet)
+char[]
+    Header
+	@calculatedFrom("""" ) ,
+Packet  Pad
+    `say ""hi""` ,  MetaDataX	@lengthOf( options1 
+) 
+,char[	10
+    ]T //	t
+@calculatedFrom(
+
+""1"" 
+
+//x
+	)	, // a // b
+      @tag( 0) char[255
+    ] 
+  // packet A { u8 x, }
+
+lengthOf
+
+    @calculatedFrom( ""a\""b""
+
+    ) ,  }
+
+")).
+Eval vm_compute in ("<<<M3738>>>" ++ check (runes_of_ascii "packet Packet {
+    matchKey `tab	here`,
+    @calculatedFrom(""// no comment"")
+    options1 `a\`,
+    @tag(65535)
+    zchar[10] u128 `it's`,
+    @lengthOf(repeatCount)
+    repeat char[] Logon,
+    len @lengthOf(leftPad) `100% of %d`,
+    @lengthOf(charz)
+    @lengthOf(x_y_z)
+    @leftPad('\x00')
+    // c
+    trueish @lengthOf(string_),
+    repeat zchar {
+        repeat char[0] o `100% of %d`,
+        match Packet as f32a {
+            0 : a1,
+            65535 : leftPad,
+            // `tick` ""quote"" 'q'
+        },
+        match rootA as stringy {
+            42 : _x,
+        },
+        repeat string float,
+    },
+    char[42] charz @calculatedFrom(""" ++ [28040; 24687]%N ++ runes_of_ascii """),
+}")).
+Eval vm_compute in ("<<<M4046>>>" ++ check (runes_of_ascii "  MetaData
+	options1
+{ }	options{ 
+} options { options1
+
+=
+	'\x00' 	 // packet A { u8 x, }
+
+}	//x
+	  root packet
+
+packetx{ @rightPad
+
+( '\x00'  )
+	asx
+leftPad
+
+,
+	repeat
+	Foo
+MetaDataX`// not a comment`
+    ,
+	@lengthOf(u128
+    )
+zchar[3]  //x
+
+	BodyLength 
+@lengthOf(
+metadata 
+)
+
+    ,
+    uint16 
+
+    // " ++ [128512]%N ++ runes_of_ascii " emoji
+    matchKey
+
+`
+`	,  rootA  u8x  `// not a comment`  // a // b
+  ,  }  root  packet
+
+    Logon{ 
+f32a
+repeatCount
     `line1
 line2`
+, @calculatedFrom(  ""// no comment""
 
-,} /// triple
+)
+u16
+	len	@calculatedFrom( 	 // @lengthOf(
+
+  ""it's""/// triple
+  ) 
+,
+@rightPad
+    (  ' '
+)MetaDataX
+,  zchar[ 00 ]	metadata
+`doc` , }
 ")).
-Eval vm_compute in ("<<<M1360>>>" ++ check (runes_of_ascii "// top
+Eval vm_compute in ("<<<M4315>>>" ++ check (runes_of_ascii "packet calculatedFrom {
+    zchar[255] BodyLength,
+    @tag(42)
+    match Logon as trueish {
+        [""\n"", ""it's""] : x_y_z,
+        ""\" ++ [233]%N ++ runes_of_ascii """ : matchKey,
+        007 : As,
+        [
+            007, ""\n"", 42, 0, ""packet"",
+            ""a	b""
+        ] : x_y_z,
+        [""CRC32""] : repeatCount,
+        ""\" ++ [233]%N ++ runes_of_ascii """ : float,
+    },
+    @leftPad()
+    repeat trueish {
+        zchar[255] x_y_z `a\`,
+        _x {
+            // @lengthOf(
+            char[4294967296] i64_,// 50% %s
+            zchar[4294967296] leftPad,
+        },
+        Foo,
+        options1 @lengthOf(Packet) `two words`,
+    },
+}
+
+root packet body {
+}")).
+Eval vm_compute in ("<<<M1115>>>" ++ check (runes_of_ascii "packet Header
+{}packet
+f32a
+    // c
+    { @calculatedFrom(
+    ""`tick`""
+// packet A { u8 x, }
+// " ++ [27880; 37322]%N ++ runes_of_ascii "
+)match // " ++ [27880; 37322]%N ++ runes_of_ascii "
+rootA as Pad
+{
+"""" : a1	255 // c
+: options1 3: f32a
+    ,
+    ""\n""
+    // " ++ [27880; 37322]%N ++ runes_of_ascii "
+    : matchKey ,	255
+    //
+    : tag ,
+    [
+    // `tick` ""quote"" 'q'
+    4294967296 , 007 ]
+:Header	}
+,
+repeat int32 // " ++ [27880; 37322]%N ++ runes_of_ascii "
+repeatCount, @lengthOf(Header
+)
+zchar[
+    255]Header	``,
+repeat char[] uint8x `100% of %d`, }root
+// trailing space 
+//	t
+packet Z9_	{ crc`{ , }` // c
+,
+// " ++ [27880; 37322]%N ++ runes_of_ascii "
+// packet A { u8 x, }
+zchar[ 4294967296 ] _x @lengthOf( A
+) ,	repeat char[] pack , Foo , }
+")).
+Eval vm_compute in ("<<<M1095>>>" ++ check (runes_of_ascii "root
+    packet tag { char[]
+repeatCount @calculatedFrom(""abc"")
+    ,
+}
+    //	t
+    packet
+packetx //
+{
+match // @lengthOf(
+int as charz {""" ++ [233]%N ++ runes_of_ascii "t" ++ [233]%N ++ runes_of_ascii """ : asx ,
+""packet""
+:msg_type ""packet"" // `tick` ""quote"" 'q'
+: charz
+,//	t
+0123456789:
+u8x	, [007
+    ]	:
+    len ,[ 255 ]
+    :// packet A { u8 x, }
+crc ,} ,
+repeat i64_	`say ""hi""`,
+    }// " ++ [27880; 37322]%N ++ runes_of_ascii "
+packet
+_x { i16 rootA	, repeat body Header `say ""hi""` , @calculatedFrom(""x y""
+    ) match int
+    // trailing space 
+    as chars{  [ 42 ]
+:
+    //	t
+    Pad	} , msg_type
+    // trailing space 
+    `say ""hi""`,}
+")).
+Eval vm_compute in ("<<<M3562>>>" ++ check (runes_of_ascii "options {
+    LittleEndian = true;
+    ArrayPrefixLenType = u32;
+    FixedStringPadFromLeft = true;
+    FixedStringPadChar = '0';
+}
+packet Party {
+}
+root packet Heartbeat {
+    repeat string Tail,
+    InRef14 {
+        InMsgkind17 {
+            int8 Flags,
+            char[10] Acct,
+            zchar[4] sym,
+            i8 Px,
+        },
+        string Px,
+    },
+    uint16 seqNo,
+    int64 tag7,
+    u16 Note,
+    u32 Px @lengthOf(Body),
+    match Note as Body {
+        96 : Party,
+    },
+    u16 Acct @calculatedFrom(""CRC32""),
+}
+")).
+Eval vm_compute in ("<<<M4080>>>" ++ check (runes_of_ascii "MetaData packetx {
+    char[] Header,
+}
+
+packet Foo {
+    u32 charz,
+    string trueish,
+    @leftPad(' ')
+    i8i8 {
+        float64 T @lengthOf(leftPad),// c
+        u128 `two words`,
+        zchar[007] metadata `two words`,
+        repeat BodyLength MetaDataX `line1
+        line2`,
+    },
+    chars @calculatedFrom(""{,}"") `100% of %d`,
+}
+
+packet T {
+    f32a,
+    @tag(0)
+    @calculatedFrom(""\n"")
+    rootA _x `{ , }`,
+    @leftPad()
+    u8 int,
+    crc @lengthOf(Logon) `tab	here`,
+    // c
+    // " ++ [128512]%N ++ runes_of_ascii " emoji
+}")).
+Eval vm_compute in ("<<<M3396>>>" ++ check (runes_of_ascii "MetaData Pad // c1a
+  // c1b
+{ x_y_z // c3a
+  // c3b
+a1 , int8
+    // c6
+trueish // c7a
+  // c7b
+`two words` // c8
+, // c9
+char[] x_y_z `{ , }` , zchar[
+    // c14
+1
+    // c15
+]
+    // c16
+pack `
+` , len i64_ ,
+    // c22
+} // c23
+MetaData crc // c25
+{ // c26a
+  // c26b
+zchar[
+    // c27
+7
+    // c28
+]
+    // c29
+Z9_ // c30a
+  // c30b
+, char[] options1 // c33a
+  // c33b
+, uint32 // c35
+options1
+    // c36
+, // c37a
+  // c37b
+u // c38
+MetaDataX // c39a
+  // c39b
+, // c40
+}
+    // c41
+")).
+Eval vm_compute in ("<<<M60>>>" ++ check (runes_of_ascii "
+MetaData
+Packet
+    { i64_ a1
+,
+    } root packet	Header { // a // b
+Z9_ // a // b
+crc , o@lengthOf(  float)`line1
+line2`
+, //x
+zchar[ 0123456789
+] metadata
+    `two words`,// a // b
+@leftPad( '\x00' )
+tag Header ,
+    } MetaData _x {char[
+007 ] msg_type ,
+charz T `say ""hi""` ,
+// @lengthOf(
+// a // b
+int16  leftPad `" ++ [233]%N ++ runes_of_ascii "` , }options { uint8x=
+char falsey =  ""{,}"" ;
+    T =""a\""b""
+;
+MetaDataX// trailing space 
+=0 ;matchKey // " ++ [128512]%N ++ runes_of_ascii " emoji
+=i8 ;	} // " ++ [27880; 37322]%N ++ runes_of_ascii "
+options	{
+}")).
+Eval vm_compute in ("<<<M3716>>>" ++ check (runes_of_ascii "options {
+    BodyLength = int8;
+}
+
+root packet options1 {
+    @tag(007)
+    /// triple
+    // packet A { u8 x, }
+    @rightPad()
+    // `tick` ""quote"" 'q'
+    char[] MetaDataX @calculatedFrom(""a	b"") `100% of %d`,
+    float32 u8x,
+    string As @lengthOf(tag),
+    @tag(4294967296)
+    @tag(00)
+    @rightPad(' ')
+    body _x,
+    i8 u8x `a\`,
+    repeat int8 tag `
+    `,
+    char[] Pad `u8 x,`,
+    int64 rootA `
+    `,
+}
+
+options {
+    // c
+}")).
+Eval vm_compute in ("<<<M169>>>" ++ check (runes_of_ascii "packet repeatCount
+{
+repeat
+repeatCount {  match float as
+charz
+    {007 :	Packet
+    ,
+""" ++ [28040; 24687]%N ++ runes_of_ascii """:
+u128
+, ""abc"" :
+    A , }
+    ,	uint8x, // c
+}
+,
+    @calculatedFrom(
+    ""`tick`""
+) char[]float ,  Foo	T	`100% of %d` ,
+    roots
+rootA
+    ,
+    char rootA
+    //	t
+    ,@tag(7 )
+//	t
+//x
+charz o`` ,  char[
+    007
+    ]
+msg_type @lengthOf( x_y_z
+    ) , //x
+}
+packet // 50% %s
+MetaDataX{ i16 _x	@calculatedFrom( ""\" ++ [233]%N ++ runes_of_ascii """ )
+    , }
+")).
+Eval vm_compute in ("<<<M3710>>>" ++ check (runes_of_ascii "
+MetaData
+lengthOf
+    { //
+	char[00]
+
+    falsey ,
+string
+packetx`crlf
+line`
+, 
+charz	_x ,
+crc
+
+metadata
+	,
+
+    uint32 
+metadata	//x
+		`tab	here`,
+    u16 
+
+    // @lengthOf(
+	// " ++ [27880; 37322]%N ++ runes_of_ascii "
+    i64_, }
+
+MetaData
+As
+	{
+char[]
+crc ,
+i8 T,  u8
+	u
+	, // `tick` ""quote"" 'q'
+  string crc
+    `line1
+line2`
+	,
+    i16 leftPad
+	,}	root
+packet	// c
+crc	{ 
+    // packet A { u8 x, }
+	i32	uint8x `line1
+line2`
+	,}")).
+Eval vm_compute in ("<<<M3715>>>" ++ check (runes_of_ascii "root// c
+    	packet
+	Z9_  {matchKey{ char[ // 50% %s
+007] 
+A	// 50% %s
+
+@calculatedFrom( ""{,}""
+    ) ,}	,	// 50% %s
+
+@lengthOf( tag )
+
+    roots As
+, char[]	falsey
+`say ""hi""`,
+@lengthOf( uint8x
+	)
+    _x
+    @calculatedFrom(
+""" ++ [233]%N ++ runes_of_ascii "t" ++ [233]%N ++ runes_of_ascii """
+	) ,  //x
+	}
+root packet
+
+A
+
+    {	@lengthOf(  u128
+	) 
+char[ 
+007 ] int @calculatedFrom(
+""" ++ [28040; 24687]%N ++ runes_of_ascii """
+
+)
+
+    ,
+    // c
+
+//x
+    }
+packet	Foo { repeat  string_ , } ")).
+Eval vm_compute in ("<<<M811>>>" ++ check (runes_of_ascii "
+packet
+o	{match matchKey
+as
+chars	{
+    10
+// c
+//x
+: MetaDataX""" ++ [233]%N ++ runes_of_ascii "t" ++ [233]%N ++ runes_of_ascii """ : x
+""it's"": trueish  , 4294967296
+:i64_ } ,
+i16 u8x @lengthOf( zchar ) , @lengthOf(	len	)//	t
+@tag( 4294967296 ) // a // b
+_x @calculatedFrom(
+""abc""  ) , } root	packet matchKey // packet A { u8 x, }
+{
+// packet A { u8 x, }
+/// triple
+repeat
+stringy u8x	,
+} packet BodyLength{metadata @lengthOf( rootA ),}
+")).
+Eval vm_compute in ("<<<M503>>>" ++ check (runes_of_ascii "  MetaData uint8x//
+{i64
+crc ,
+    u16 Pad	`" ++ [233]%N ++ runes_of_ascii "` ,
+float64 falsey	,
+    i64
+    Packet ,
+//	t
+// " ++ [128512]%N ++ runes_of_ascii " emoji
+} MetaData x_y_z { } packet
+    x_y_z
+{ } options {  crc= int8 ;i8i8 =
+""\n"" body =	char[]BodyLength	= ' '  ;
+    i64_ =
+'\x00'
+// a // b
+// " ++ [27880; 37322]%N ++ runes_of_ascii "
+}options { len // `tick` ""quote"" 'q'
+= true roots
+=' ' ; trueish
+    = '0'a1 =
+// @lengthOf(
+//
+10 ; Z9_ =	f32
+;
+    }
+")).
+Eval vm_compute in ("<<<M3925>>>" ++ check (runes_of_ascii "root packet uint8x {
+    @leftPad(' ')
+    // packet A { u8 x, }
+    char[0] matchKey @calculatedFrom(""`tick`""),
+    @tag(0)
+    int32 f32a @lengthOf(msg_type),
+    u8x @calculatedFrom(""a	b""),
+    repeat falsey `" ++ [28040; 24687; 31867; 22411]%N ++ runes_of_ascii "`,
+}
+
+options {
+    roots = ""\" ++ [233]%N ++ runes_of_ascii """
+    o = '\x00';
+    u = char[7]
+    metadata = true
+    float = ""\n"";
+}
+
+MetaData crc {
+    body A `" ++ [233]%N ++ runes_of_ascii "`,
+}")).
+Eval vm_compute in ("<<<M30>>>" ++ check (runes_of_ascii "  packet lengthOf
+{ match charz as leftPad { ""// no comment"":
+    Z9_ , [
+    65535
+,
+""" ++ [28040; 24687]%N ++ runes_of_ascii """ ] : x , }
+    // 50% %s
+    ,//	t
+zchar[ 0123456789 // c
+]
+tag
+    @calculatedFrom( ""CRC32""	) `// not a comment` , repeat
+char[
+// 50% %s
+// " ++ [128512]%N ++ runes_of_ascii " emoji
+0123456789
+// @lengthOf(
+// @lengthOf(
+]Logon
+,	} packet options1
+{
+    }packet options1{
+}
+")).
+Eval vm_compute in ("<<<M1042>>>" ++ check (runes_of_ascii "packet T { // packet A { u8 x, }
+uint64
+i64_	@calculatedFrom( ""x y"" )`tab	here`
+    ,} packet MetaDataX {  @rightPad ( '\x00'  )	string_ // " ++ [27880; 37322]%N ++ runes_of_ascii "
+string_
+, int64 len
+`doc`
+, @lengthOf(
+    body ) repeat leftPad
+lengthOf `two words` ,}
+MetaData zchar
+    { x_y_z i64_,}
+    MetaData len
+    { // " ++ [128512]%N ++ runes_of_ascii " emoji
+} root packet body
+{}")).
+Eval vm_compute in ("<<<M3918>>>" ++ check (runes_of_ascii "packet Pad {
+    // @lengthOf(
+    /// triple
+    @tag(1)
+    @leftPad('0')
+    repeat zchar[10] Packet,
+    uint32 BodyLength `100% of %d`,
+    repeat char[10] Z9_,
+    @leftPad('0')
+    repeat Foo a1,
+    char[42] repeatCount `line1
+    line2`,
+    @rightPad()
+    char[] crc,
+    pack @calculatedFrom(""\" ++ [233]%N ++ runes_of_ascii """),
+}")).
+Eval vm_compute in ("<<<M144>>>" ++ check (runes_of_ascii "root
+    packet crc { match tag as
+    Z9_ { 00  :	a1,
+    } ,
+    char[  10
+    ]	f32a	,
+    A rootA
+`100% of %d`
+,  match A as // @lengthOf(
+x_y_z {[
+""it's"" ,
+    255 ] :
+    MetaDataX //
+, [7 ] :Packet , },
+    // `tick` ""quote"" 'q'
+    repeat char[] //x
+uint8x
+    `" ++ [233]%N ++ runes_of_ascii "`
+    // @lengthOf(
+    , }")).
+Eval vm_compute in ("<<<M3653>>>" ++ check (runes_of_ascii "MetaData x {
+    i64 Z9_ `a\`,//
+    char[7] f32a `{ , }`,
+    len a1,
+    u64 repeatCount,
+    string BodyLength,
+    crc Pad `tab	here`,
+}
+
+packet T {
+    char[42] repeatCount `line1
+    line2`,
+}
+
+root packet i64_ {
+    @lengthOf(u128)
+    @lengthOf(As)
+    @leftPad()
+    uint32 f32a,
+}")).
+Eval vm_compute in ("<<<M3257>>>" ++ check (runes_of_ascii "// top
+MetaData // c0
+metadata // c1
+{ // c2
+} // c3
+MetaData // c4
+rootA // c5
+{ // c6
+i8 // c7
+i64_ // c8
+, // c9
+roots // c10
+options1 // c11
+`a\` // c12
+, // c13
+lengthOf // c14
+Header // c15
+, // c16
+Z9_ // c17
+Foo // c18
+, // c19
+int16 // c20
+BodyLength // c21
+, // c22
+} // c23
+")).
+Eval vm_compute in ("<<<M1857>>>" ++ check (runes_of_ascii "packet	packetx { { // trailing space 
+x_y_z
+{
+string
+charz ,
+string x// @lengthOf(
+`two words`
+    ,  u8x { // `tick` ""quote"" 'q'
+charz `100% of %d` // packet A { u8 x, }
+,}// " ++ [27880; 37322]%N ++ runes_of_ascii "
+,} , }
+    // a // b
+    packet metadata {  @leftPad ( '0') repeat i32 options1 ,u64 uint8x , }
+")).
+Eval vm_compute in ("<<<M2043>>>" ++ check (runes_of_ascii "packet	packetx { // trailing space 
+x_y_z
+{
+string
+charz ,
+string x// @lengthOf(
+`two words`
+    ,  u8x { // `tick` ""quote"" 'q'
+charz `100% of %d` // packet A { u8 x, }
+,}// " ++ [27880; 37322]%N ++ runes_of_ascii "
+,} , }
+    // a // b
+    packet metadata {  @leftPad ( '0') repeat i32 options1 ,u64 uint8x$ , }
+")).
+Eval vm_compute in ("<<<M1979>>>" ++ check (runes_of_ascii "packet	packetx { // trailing space 
+x_y_z
+{
+string
+charz ,
+string x// @lengthOf(
+`two words`
+    ,  u8x { // `tick` ""quote"" 'q'
+charz `100% of %d` // packet A { u8 x, }
+,}// " ++ [27880; 37322]%N ++ runes_of_ascii "
+,} , }
+    // a // b
+    packet metadata {  @leftPad = '0') repeat i32 options1 ,u64 uint8x , }
+")).
+Eval vm_compute in ("<<<M2026>>>" ++ check (runes_of_ascii "packet	packetx { // trailing space 
+x_y_z
+{
+string
+charz ,
+string x// @lengthOf(
+`two words`
+    ,  u8x { // `tick` ""quote"" 'q'
+charz `100% of %d` // packet A { u8 x, }
+,}// " ++ [27880; 37322]%N ++ runes_of_ascii "
+,} , }
+    // a // b
+    packet metadata {  @leftPad ( '0') repeat i32 options1 ,u64 uint8x , 
+")).
+Eval vm_compute in ("<<<M1855>>>" ++ check (runes_of_ascii "packet	`` { // trailing space 
+x_y_z
+{
+string
+charz ,
+string x// @lengthOf(
+`two words`
+    ,  u8x { // `tick` ""quote"" 'q'
+charz `100% of %d` // packet A { u8 x, }
+,}// " ++ [27880; 37322]%N ++ runes_of_ascii "
+,} , }
+    // a // b
+    packet metadata {  @leftPad ( '0') repeat i32 options1 ,u64 uint8x , }
+")).
+Eval vm_compute in ("<<<M1125>>>" ++ check (runes_of_ascii "root// a // b
+packet Pad
+{	roots {
+char[//	t
+00/// triple
+]/// triple
+repeatCount,	match MetaDataX as _x{""" ++ [28040; 24687]%N ++ runes_of_ascii """ : leftPad , """ ++ [28040; 24687]%N ++ runes_of_ascii """ :	i64_
+, }, //	t
+repeat Logon pack , char[] A `two words`,	} , } packet	crc { repeat zchar body
+/// triple
+// a // b
+, char[
+65535
+]
+Foo, }
+")).
+Eval vm_compute in ("<<<M2082>>>" ++ check (runes_of_ascii "packet// packet A { u8 x, }
+repeatCount	{// packet A { u8 x, }
+@leftPad ( '\x00'
+char[] repeat u8x MetaDataX `crlf
+line`,
+    repeat
+    char[] MetaDataX
+    ,
+u64	uint8x@calculatedFrom(""a\""b""
+// c
+// packet A { u8 x, }
+) `tab	here`
+,//
+}MetaData pack
+    {
+    }
+")).
+Eval vm_compute in ("<<<M2105>>>" ++ check (runes_of_ascii "packet// packet A { u8 x, }
+repeatCount	{// packet A { u8 x, }
+@leftPad ( '\x00'
+) repeat u8x MetaDataX `crlf
+line`, ,
+    repeat
+    char[] MetaDataX
+    ,
+u64	uint8x@calculatedFrom(""a\""b""
+// c
+// packet A { u8 x, }
+) `tab	here`
+,//
+}MetaData pack
+    {
+    }
+")).
+Eval vm_compute in ("<<<M2053>>>" ++ check (runes_of_ascii "repeatCount// packet A { u8 x, }
+packet	{// packet A { u8 x, }
+@leftPad ( '\x00'
+) repeat u8x MetaDataX `crlf
+line`,
+    repeat
+    char[] MetaDataX
+    ,
+u64	uint8x@calculatedFrom(""a\""b""
+// c
+// packet A { u8 x, }
+) `tab	here`
+,//
+}MetaData pack
+    {
+    }
+")).
+Eval vm_compute in ("<<<M2181>>>" ++ check (runes_of_ascii "packet// packet A { u8 x, }
+repeatCount	{// packet A { u8 x, }
+@leftPad ( '\x00'
+) repeat u8x MetaDataX `crlf
+line`,
+    repeat
+    char[] MetaDataX
+    ,
+u64	uint8x@calculatedFrom(""a\""b""
+// c
+// packet A { u8 x, }
+) `tab	here`
+,//
+}MetaData pack
+    }
+    {
+")).
+Eval vm_compute in ("<<<M2117>>>" ++ check (runes_of_ascii "packet// packet A { u8 x, }
+repeatCount	{// packet A { u8 x, }
+@leftPad ( '\x00'
+) repeat u8x MetaDataX `crlf
+line`,
+    repeat
+    10 MetaDataX
+    ,
+u64	uint8x@calculatedFrom(""a\""b""
+// c
+// packet A { u8 x, }
+) `tab	here`
+,//
+}MetaData pack
+    {
+    }
+")).
+Eval vm_compute in ("<<<M2209>>>" ++ check (runes_of_ascii "packet// packet A { u8 x, }
+" ++ [252]%N ++ runes_of_ascii "ber	{// packet A { u8 x, }
+@leftPad ( '\x00'
+) repeat u8x MetaDataX `crlf
+line`,
+    repeat
+    char[] MetaDataX
+    ,
+u64	uint8x@calculatedFrom(""a\""b""
+// c
+// packet A { u8 x, }
+) `tab	here`
+,//
+}MetaData pack
+    {
+    }
+")).
+Eval vm_compute in ("<<<M1610>>>" ++ check (runes_of_ascii "packet calculatedFrom
+{ @calculatedFrom( ""a\\"" ) zchar[ 4294967296 ]
+calculatedFrom@lengthOf( pack )	`100% of %d` ,char[]body@calculatedFrom( ""// no comment"" )  ,
+@tag( 007) //x
+int8
+leftPad`it's` , repeat pack
+    { repeat char[ 3] body
+,},
+int8")).
+Eval vm_compute in ("<<<M1436>>>" ++ check (runes_of_ascii "packet calculatedFrom
+{ @calculatedFrom( repeat ) zchar[ 4294967296 ]
+calculatedFrom@lengthOf( pack )	`100% of %d` ,char[]body@calculatedFrom( ""// no comment"" )  ,
+@tag( 007) //x
+int8
+leftPad`it's` , repeat pack
+    { repeat char[ 3] body
+,},
+}")).
+Eval vm_compute in ("<<<M1455>>>" ++ check (runes_of_ascii "packet calculatedFrom
+{ @calculatedFrom( ""a\\"" ) zchar[ 4294967296 calculatedFrom
+]@lengthOf( pack )	`100% of %d` ,char[]body@calculatedFrom( ""// no comment"" )  ,
+@tag( 007) //x
+int8
+leftPad`it's` , repeat pack
+    { repeat char[ 3] body
+,},
+}")).
+Eval vm_compute in ("<<<M3441>>>" ++ check (runes_of_ascii "// top
 options // c0a
   // c0b
-{
-    // c1
-LittleEndian =
-    // c3
-true // c4
-; }
-    // c6
-packet
-    // c7
-B // c8
-{ // c9a
+{ // c1
+LittleEndian
+    // c2
+= true // c4
+;
+    // c5
+} // c6a
+  // c6b
+root // c7a
+  // c7b
+packet P // c9a
   // c9b
-u8 // c10
-a // c11a
-  // c11b
-, // c12
-string s // c14
-, // c15a
-  // c15b
-} // c16a
+{ repeat // c11
+char cs // c13
+,
+    // c14
+u8 // c15
+x // c16a
   // c16b
-root
-    // c17
-packet // c18a
+, } // c18a
   // c18b
-P { u16 // c21
-L // c22a
-  // c22b
-@lengthOf( B ) // c25a
-  // c25b
-,
-    // c26
-B // c27a
-  // c27b
-, // c28
-u8 // c29
-t , // c31
-} ")).
-Eval vm_compute in ("<<<M116>>>" ++ check (runes_of_ascii "options//	t
-{
-BodyLength
-    = ""{,}"" tag	=
-    ""// no comment"" ; } options {
-    charz
-= '\x00' ; // a // b
-repeatCount
-= 255// c
-; _x
-=
-    """ ++ [128512]%N ++ runes_of_ascii """
-    ; Foo= '0'	a1 ='0'
-//x
-//
-}root packet falsey { i64 packetx@lengthOf( Header//	t
-)`" ++ [28040; 24687; 31867; 22411]%N ++ runes_of_ascii "` ,
-len @lengthOf( roots )
-`a\` , zchar	@lengthOf( MetaDataX
-    //x
-    )
-    `line1
-line2`
-    , } // packet A { u8 x, }")).
-Eval vm_compute in ("<<<M2018>>>" ++ check (runes_of_ascii "// a // b
-packet int {
-    //	t
-    pack @lengthOf(leftPad),
-    u128 MetaDataX,
-    char[] charz @calculatedFrom(""\" ++ [233]%N ++ runes_of_ascii """),
-    calculatedFrom {
-        float BodyLength,
-    },
-    @calculatedFrom(""" ++ [233]%N ++ runes_of_ascii "t" ++ [233]%N ++ runes_of_ascii """)
-    @lengthOf(MetaDataX)
-    match Logon as i64_ {
-        [0, 255, 10, 7, 0123456789] : asx,
-        // " ++ [128512]%N ++ runes_of_ascii " emoji
-    },
+")).
+Eval vm_compute in ("<<<M145>>>" ++ check (runes_of_ascii "MetaData
+charz{ // a // b
+u
+    // `tick` ""quote"" 'q'
+    charz, } root packet lengthOf // " ++ [128512]%N ++ runes_of_ascii " emoji
+{ @leftPad
+(
+)
+    int16 float  , } packet
+u
+{ f32 MetaDataX ,
+    float { // `tick` ""quote"" 'q'
+repeat i16
+uint8x	, }
+,@tag( 42) int8
+u,
+}
+")).
+Eval vm_compute in ("<<<M1568>>>" ++ check (runes_of_ascii "packet calculatedFrom
+{ @calculatedFrom( ""a\\"" ) zchar[ 4294967296 ]
+calculatedFrom@lengthOf( pack )	`100% of %d` ,char[]body@calculatedFrom( ""// no comment"" )  ,
+@tag( 007) //x
+int8
+leftPad`it's` , repeat pack
+    {  char[ 3] body
+,},
 }")).
-Eval vm_compute in ("<<<M1397>>>" ++ check (runes_of_ascii "packet A {
-    u8 a,
-}
-packet B {
-    u16 b,
-}
-packet C {
-    u32 c,
-}
-root packet M {
-    u16 Kc, u16 Kb, u16 Ka,
-    match Kc as X {
-        9 : A,
-        10 : B,
-    },
-    match Kb as Y {
-        2 : C,
-        1 : A,
-    },
-    match Ka as Z {
-        1 : B,
-    },
-    A, B, C,
-}
-")).
-Eval vm_compute in ("<<<M2035>>>" ++ check (runes_of_ascii "MetaData asx {
-    // packet A { u8 x, }
-    char Z9_,
-}
-
-options {
-    Pad = '0'/// triple
-}
-
-options {
-    trueish = ""it's""
-    matchKey = false;
-    T = float32;
-    /// triple
-    len = ' ';
-    string_ = i16;
-}
-
-root packet f32a {
-    char[] u8x,
+Eval vm_compute in ("<<<M1503>>>" ++ check (runes_of_ascii "packet calculatedFrom
+{ @calculatedFrom( ""a\\"" ) zchar[ 4294967296 ]
+calculatedFrom@lengthOf( pack )	`100% of %d` ,char[]body@calculatedFrom(  )  ,
+@tag( 007) //x
+int8
+leftPad`it's` , repeat pack
+    { repeat char[ 3] body
+,},
 }")).
-Eval vm_compute in ("<<<M181>>>" ++ check (runes_of_ascii "root
-packet BodyLength {
-//x
-//	t
-@rightPad( ' ') f32
-_x @lengthOf( Header )
-`" ++ [28040; 24687; 31867; 22411]%N ++ runes_of_ascii "`
-, @lengthOf( crc )
-    // a // b
-    @tag(
-    007
-) char[]// c
-a1
-    ,  } packet metadata { Foo@calculatedFrom( ""\n""), char _x
-// " ++ [27880; 37322]%N ++ runes_of_ascii "
-//	t
-, }
-")).
-Eval vm_compute in ("<<<M552>>>" ++ check (runes_of_ascii "options
-{
-matchKey = 42/// triple
-x='0' ;
-// packet A { u8 x, }
-//
-charz
-=
-// packet A { u8 x, }
-// trailing space 
-true  ; } MetaData BodyLength
-{
-uint8
-pack,zchar[ 1]float ,  float32 x_y_z `` ,u32
-_x,i16 body body  , }
-")).
-Eval vm_compute in ("<<<M497>>>" ++ check (runes_of_ascii "options
-{
-matchKey = 42/// triple
-x='0' ;
-// packet A { u8 x, }
-//
-charz
-=
-// packet A { u8 x, }
-// trailing space 
-true  ; } MetaData BodyLength
-{
-uint8
-pack,zchar[ 1] ]float ,  float32 x_y_z `` ,u32
-_x,i16 body  , }
-")).
-Eval vm_compute in ("<<<M393>>>" ++ check (runes_of_ascii "options
-matchKey
-{ = 42/// triple
-x='0' ;
-// packet A { u8 x, }
-//
-charz
-=
-// packet A { u8 x, }
-// trailing space 
-true  ; } MetaData BodyLength
-{
-uint8
-pack,zchar[ 1]float ,  float32 x_y_z `` ,u32
-_x,i16 body  , }
-")).
-Eval vm_compute in ("<<<M541>>>" ++ check (runes_of_ascii "options
-{
-matchKey = 42/// triple
-x='0' ;
-// packet A { u8 x, }
-//
-charz
-=
-// packet A { u8 x, }
-// trailing space 
-true  ; } MetaData BodyLength
-{
-uint8
-pack,zchar[ 1]float ,  float32 x_y_z `` ,u32
-_x i16 body  , }
-")).
-Eval vm_compute in ("<<<M585>>>" ++ check (runes_of_ascii "options
-{
-na" ++ [239]%N ++ runes_of_ascii "ve = 42/// triple
-x='0' ;
-// packet A { u8 x, }
-//
-charz
-=
-// packet A { u8 x, }
-// trailing space 
-true  ; } MetaData BodyLength
-{
-uint8
-pack,zchar[ 1]float ,  float32 x_y_z `` ,u32
-_x,i16 body  , }
-")).
-Eval vm_compute in ("<<<M1415>>>" ++ check (runes_of_ascii "packet Logon {
-    string user,
-}
-root packet Frame {
-    u8 K,
-    match K as Body {
-        1 : Logon,
-        2 : Logout,
-    },
-    Tail,
-}
-packet Logout {
-    u16 reason,
-}
-packet Tail {
-    u32 crc,
-}
-")).
-Eval vm_compute in ("<<<M699>>>" ++ check (runes_of_ascii "// c
-packet i64_ {	char[] calculatedFrom , } packet
-trueish trueish  {@calculatedFrom(
-""a\\"" ) o { i32 falsey@lengthOf( uint8x ),
-} , } // `tick` ""quote"" 'q'
-options {// c
-Z9_ = ' '//
-}
-")).
-Eval vm_compute in ("<<<M698>>>" ++ check (runes_of_ascii "// c
-packet i64_ {	char[] calculatedFrom , } packet
-trueish  {@calculatedFrom(
-""a\\"" ) ) o { i32 falsey@lengthOf( uint8x ),
-} , } // `tick` ""quote"" 'q'
-options {// c
-Z9_ = ' '//
-}
-")).
-Eval vm_compute in ("<<<M694>>>" ++ check (runes_of_ascii "// c
-packet i64_ {	char[] calculatedFrom , } packet
-trueish  {@calculatedFrom(
-""a\\"" ) o { i32 falsey@lengthOf( " ++ [252]%N ++ runes_of_ascii "ber ),
-} , } // `tick` ""quote"" 'q'
-options {// c
-Z9_ = ' '//
-}
-")).
-Eval vm_compute in ("<<<M1645>>>" ++ check (runes_of_ascii "// top
-packet o {
-    // c2
-    @tag(42)
-    // c5
-    repeat x {
-        // c8
-        char[0123456789] i64_,// c13
-    },// c15
-}// c16
-
-options {
-    // c18
-}// c19")).
-Eval vm_compute in ("<<<M185>>>" ++ check (runes_of_ascii "options {  Logon =
-    ""{,}"" } //	t
-MetaData leftPad { i8 zchar `// not a comment`, } MetaData len
-    {char[] u128	,} // " ++ [27880; 37322]%N ++ runes_of_ascii "
-root
-    packet Pad
-{
-    }")).
-Eval vm_compute in ("<<<M1574>>>" ++ check (runes_of_ascii "
-packet A
-{
-    match k as
-	n
-    {
-	[	1	, ""bb"",
-007
-    , ""d""	,	5
-
-, ""f"",  7  ,
-    ""h"",	9	,
-
-    ""j""
-	, 11]	:
-    B ,
-	2
-    :C
-    } ,}
-")).
-Eval vm_compute in ("<<<M1100>>>" ++ check (runes_of_ascii "// top
+Eval vm_compute in ("<<<M1053>>>" ++ check (runes_of_ascii "
 MetaData
-    // c0
-zchar
-    // c1
-{
-    // c2
-zchar[
-    // c3
-3
-    // c4
-]
-    // c5
-Pad
-    // c6
-,
-    // c7
-}
-    // c8
+    Packet
+{ a1 //	t
+options1 `it's`
+,  o	u8x
+    `{ , }` , float pack `{ , }` ,zchar[	255 ]
+    f32a , }
+packet calculatedFrom { @lengthOf( a1
+) @tag(
+42 ) repeat	Packet ,@leftPad( ) repeat T ,
+    //
+    }
 ")).
-Eval vm_compute in ("<<<M592>>>" ++ check (runes_of_ascii "MetaData
-    // trailing space 
-    matchKey matchKey
-{ u64 chars // a // b
-,char[] lengthOf `// not a comment`
-    , //	t
-}")).
-Eval vm_compute in ("<<<M1631>>>" ++ check (runes_of_ascii "  options { LittleEndian
-
-=
-	true
-
-    ;  }
-    root
-
-    packet	P { u16 a
-,
-u32 
-Sum
-@calculatedFrom(""CRC32"")
+Eval vm_compute in ("<<<M311>>>" ++ check (runes_of_ascii "MetaData  x { } root//x
+packet Logon { string _x ,
+    uint64 zchar @lengthOf(
+// a // b
+//x
+lengthOf	), repeat	charz,
+    @leftPad ( '\x00'
+    ) @calculatedFrom( """ ++ [28040; 24687]%N ++ runes_of_ascii """ ) repeat // trailing space 
+int32 body, }
+")).
+Eval vm_compute in ("<<<M189>>>" ++ check (runes_of_ascii "  packet falsey{ u8x Logon // trailing space 
+,zchar[007]
+    stringy
+    @lengthOf( u )`u8 x,` ,
+    @tag(
+1 ) int16 T @calculatedFrom( ""{,}"" )
+`tab	here` , Pad
+    msg_type
+// " ++ [128512]%N ++ runes_of_ascii " emoji
+// " ++ [128512]%N ++ runes_of_ascii " emoji
 , }
 ")).
-Eval vm_compute in ("<<<M653>>>" ++ check (runes_of_ascii "MetaData
- /   // trailing space 
-    matchKey
-{ u64 chars // a // b
-,char[] lengthOf `// not a comment`
-    , //	t
-}")).
-Eval vm_compute in ("<<<M596>>>" ++ check (runes_of_ascii "MetaData
-    // trailing space 
-    matchKey
- u64 chars // a // b
-,char[] lengthOf `// not a comment`
-    , //	t
-}")).
-Eval vm_compute in ("<<<M660>>>" ++ check (runes_of_ascii "MetaData
-    // trailing space 
-    " ++ [252]%N ++ runes_of_ascii "ber
-{ u64 chars // a // b
-,char[] lengthOf `// not a comment`
-    , //	t
-}")).
-Eval vm_compute in ("<<<M1842>>>" ++ check (runes_of_ascii "
-
-  packet
-
-    Pad
-    { @calculatedFrom( ""CRC32""  )  @tag( 
-7 
-) float32 u128
-
-@calculatedFrom(""\n""),
-
-}
+Eval vm_compute in ("<<<M2188>>>" ++ check (runes_of_ascii "packet// packet A { u8 x, }
+repeatCount	{// packet A { u8 x, }
+@leftPad ( '\x00'
+) repeat u8x MetaDataX `crlf
+line`,
+    repeat
+    char[] MetaDataX
+    ,
+u64	uint8x@calculatedFrom(""a\""b""
+// c")).
+Eval vm_compute in ("<<<M1261>>>" ++ check (runes_of_ascii "  MetaData MetaDataX
+{
+char[]
+repeatCount ,
+repeatCount uint8x ,}options { calculatedFrom
+    =7 ;
+msg_type
+= true float =
+zchar[ 0123456789 ]
+    u128 = '0' // a // b
+MetaDataX= u8	}
 ")).
-Eval vm_compute in ("<<<M1289>>>" ++ check (runes_of_ascii "packet calculatedFrom { @tag( 4294967296 ) u msg_type , char[ 3 ] crc @lengthOf( len ) `u8 x,` , } // c
-")).
-Eval vm_compute in ("<<<M1274>>>" ++ check (runes_of_ascii "packet calculatedFrom { @tag( 4294967296 ) u msg_type , char[ 3
-// c
-] crc @lengthOf( len ) `u8 x,` , }")).
-Eval vm_compute in ("<<<M1873>>>" ++ check (runes_of_ascii "
-packet
+Eval vm_compute in ("<<<M3489>>>" ++ check (runes_of_ascii "packet
 
     A
+{
+	u8
+    a
+,} packet	B  { u16 b , 
+} 
+root
 
-    {
-Inner {
+    packet
+P{ u8	K1	, u8 K2	,match
+	K1 as
+    M1 { 1:A
+    ,  }
 
-    u8
+    , match  K2
 
-    x
-    `
-x` ,  Deep
-	{
-	u8 
-y `
-x`, },
+as  M2
+{
 
-}
-    , } ")).
-Eval vm_compute in ("<<<M1129>>>" ++ check (runes_of_ascii "
-// c
-packet Logon { @tag( 42 ) @rightPad ( ' ' ) @leftPad ( ) repeat trueish { string T , } , }")).
-Eval vm_compute in ("<<<M1152>>>" ++ check (runes_of_ascii "packet Logon { @tag( 42 ) @rightPad ( ' ' ) @leftPad ( // c
-) repeat trueish { string T , } , }")).
-Eval vm_compute in ("<<<M862>>>" ++ check (runes_of_ascii "packet A {
-  match k as n {
-    [""a"", ""bb"", 007, ""d"", ""e"", 66, ""g"", ""h""] : B
-    2 : C
-  },
-}")).
-Eval vm_compute in ("<<<M1343>>>" ++ check (runes_of_ascii "packet
+1
+    :
+B
+	,}
 
-    Inner {  u8 a
-    , }root
-packet  P
-
-{repeat 
-Inner
-
-items
-    ,
-u8 x , } ")).
-Eval vm_compute in ("<<<M864>>>" ++ check (runes_of_ascii "packet A {
-  match k as n {
-    [1, 22, 007, 4, 5, 66, 7, 8, 9] : B,
-    2 : C
-  },
-}")).
-Eval vm_compute in ("<<<M829>>>" ++ check (runes_of_ascii "packet A {
-  match k as n {
-    [1, ""bb"", 007, ""d"", 5, ""f""] : B,
-    2 : C
-  },
-}")).
-Eval vm_compute in ("<<<M1235>>>" ++ check (runes_of_ascii "packet o { @tag( 42 ) repeat x { char[ 0123456789 ] i64_ ,
-// c
-} , } options { }")).
-Eval vm_compute in ("<<<M838>>>" ++ check (runes_of_ascii "packet A {
-  match k as n {
-    [1, 22, 007, 4, 5, 66, 7] : B,
-    2 : C
-  },
-}")).
-Eval vm_compute in ("<<<M902>>>" ++ check (runes_of_ascii "packet A { Inner { match k as n { [1,22,007,4,5,66,7,8,9,10,11] : B, }, }, }")).
-Eval vm_compute in ("<<<M1593>>>" ++ check (runes_of_ascii "packet A {
+,  } ")).
+Eval vm_compute in ("<<<M1402>>>" ++ check (runes_of_ascii "MetaData u
+    { i8 tag `two words`  , }root packet  Logon { @lengthOf( A ) @tag(007) A matchKey, }options{
+A = false
+    ;string_
+    /// triple
+    = ' '
+; a1 =
+""a	b"" }
+")).
+Eval vm_compute in ("<<<M4314>>>" ++ check (runes_of_ascii "packet A {
     match k as n {
-        [""a""] : B,
+        [
+            ""a"", ""bb"", 007, ""d"", ""e"",
+            66, ""g"", ""h"", 9, ""j"",
+            ""k""
+        ] : B,
         2 : C,
     },
 }")).
-Eval vm_compute in ("<<<M1317>>>" ++ check (runes_of_ascii "MetaData _x { zchar[ 4294967296 // c
-] lengthOf `// not a comment` , }")).
-Eval vm_compute in ("<<<M786>>>" ++ check (runes_of_ascii "packet A {
+Eval vm_compute in ("<<<M4209>>>" ++ check (runes_of_ascii "
+
+  MetaData
+
+rootA
+{ 
+uint8x
+
+    MetaDataX
+    ,
+	char[] roots
+    ,roots
+	i8i8,uint16 
+// packet A { u8 x, }
+	// 50% %s
+      o
+    ,  int16 lengthOf
+    ,}")).
+Eval vm_compute in ("<<<M1668>>>" ++ check (runes_of_ascii "options { } packet Packet{char[] i64_ i64_ ,
+@tag(
+    255) match
+crc as i8i8{""{,}"" : trueish """" : Pad , ""a\\"" :
+Foo ,
+    1 :packetx
+, """ ++ [128512]%N ++ runes_of_ascii """ : trueish , } , }")).
+Eval vm_compute in ("<<<M1705>>>" ++ check (runes_of_ascii "options { } packet Packet{char[] i64_ ,
+@tag(
+    255) match
+crc uint32 i8i8{""{,}"" : trueish """" : Pad , ""a\\"" :
+Foo ,
+    1 :packetx
+, """ ++ [128512]%N ++ runes_of_ascii """ : trueish , } , }")).
+Eval vm_compute in ("<<<M2402>>>" ++ check (runes_of_ascii "
+packet MetaDataX
+{
+    @leftPad
+( // a // b
+'0'
+) i8 u @lengthOf(
+MetaDataX
+    ) `say ""hi""` ,	} MetaData BodyLength {
+    x_y_z
+asx `" ++ [233]%N ++ runes_of_ascii "`
+, uint64 u128 , }
+")).
+Eval vm_compute in ("<<<M1831>>>" ++ check (runes_of_ascii "options { } packet Packet{char[] i64_ ,
+@tag(
+    255) match
+crc as i8i8{""{,}"" ' : trueish """" : Pad , ""a\\"" :
+Foo ,
+    1 :packetx
+, """ ++ [128512]%N ++ runes_of_ascii """ : trueish , } , }")).
+Eval vm_compute in ("<<<M1836>>>" ++ check ([65279]%N ++ runes_of_ascii "options { } packet Packet{char[] i64_ ,
+@tag(
+    255) match
+crc as i8i8{""{,}"" : trueish """" : Pad , ""a\\"" :
+Foo ,
+    1 :packetx
+, """ ++ [128512]%N ++ runes_of_ascii """ : trueish , } , }")).
+Eval vm_compute in ("<<<M1745>>>" ++ check (runes_of_ascii "options { } packet Packet{char[] i64_ ,
+@tag(
+    255) match
+crc as i8i8{""{,}"" : trueish """" : i32 , ""a\\"" :
+Foo ,
+    1 :packetx
+, """ ++ [128512]%N ++ runes_of_ascii """ : trueish , } , }")).
+Eval vm_compute in ("<<<M1672>>>" ++ check (runes_of_ascii "options { } packet Packet{char[] i64_ 
+@tag(
+    255) match
+crc as i8i8{""{,}"" : trueish """" : Pad , ""a\\"" :
+Foo ,
+    1 :packetx
+, """ ++ [128512]%N ++ runes_of_ascii """ : trueish , } , }")).
+Eval vm_compute in ("<<<M1825>>>" ++ check (runes_of_ascii "options { } packet Packet{char[] i64_ ,
+@tag(
+    255) match
+crc as i8i8{""{,}"" : trueish """" : Pad , ""a\\"" :
+Foo ,
+    1 :packetx
+, """ ++ [128512]%N ++ runes_of_ascii """ : trueish , } ,")).
+Eval vm_compute in ("<<<M1720>>>" ++ check (runes_of_ascii "options { } packet Packet{char[] i64_ ,
+@tag(
+    255) match
+crc as i8i8{{ : trueish """" : Pad , ""a\\"" :
+Foo ,
+    1 :packetx
+, """ ++ [128512]%N ++ runes_of_ascii """ : trueish , } , }")).
+Eval vm_compute in ("<<<M1727>>>" ++ check (runes_of_ascii "options { } packet Packet{char[] i64_ ,
+@tag(
+    255) match
+crc as i8i8{""{,}"" :  """" : Pad , ""a\\"" :
+Foo ,
+    1 :packetx
+, """ ++ [128512]%N ++ runes_of_ascii """ : trueish , } , }")).
+Eval vm_compute in ("<<<M4327>>>" ++ check (runes_of_ascii "packet A {
+    Inner {
+        u8 x `a
+        
+        b`,
+        Deep {
+            u8 y `a
+            
+            b`,
+        },
+    },
+}")).
+Eval vm_compute in ("<<<M3962>>>" ++ check (runes_of_ascii "options {
+    string_ = '0';
+    Foo = true
+    lengthOf = """";
+    string_ = u16
+}
+
+options {
+    body = ' '
+}
+
+options {
+    chars = 42
+}")).
+Eval vm_compute in ("<<<M3634>>>" ++ check (runes_of_ascii "MetaData repeatCount {
+    i16 i8i8 `it's`,
+}
+
+packet _x {
+    stringy MetaDataX,
+}
+
+options {
+    T = char[0];
+    Header = ""it's"";
+}")).
+Eval vm_compute in ("<<<M4199>>>" ++ check (runes_of_ascii "packet A {
+    u16 len @lengthOf(body) `tab
+        	x`,
+    u32 crc @calculatedFrom(""CRC32"") `tab
+        	x`,
+    string body,
+}")).
+Eval vm_compute in ("<<<M81>>>" ++ check (runes_of_ascii "root packet
+    chars	{ f32 calculatedFrom @calculatedFrom( ""a\""b"" )
+    //
+    `line1
+line2`,repeatCount //
+roots  ,} //	t")).
+Eval vm_compute in ("<<<M3290>>>" ++ check (runes_of_ascii "MetaData metadata { } MetaData rootA { i8 i64_ , roots options1 `a\` , lengthOf // c
+Header , Z9_ Foo , int16 BodyLength , }")).
+Eval vm_compute in ("<<<M1393>>>" ++ check (runes_of_ascii "packet BodyLength{ // `tick` ""quote"" 'q'
+@leftPad
+    ( ) match stringy as string_	{
+    65535 //	t
+:
+Foo ,
+}  , }
+// c
+")).
+Eval vm_compute in ("<<<M212>>>" ++ check (runes_of_ascii "root packet T // " ++ [128512]%N ++ runes_of_ascii " emoji
+{ } options { x_y_z // a // b
+= ""`tick`"" ; matchKey =
+255
+f32a = """ ++ [128512]%N ++ runes_of_ascii """ ; Packet
+= '0' ; }
+")).
+Eval vm_compute in ("<<<M3230>>>" ++ check (runes_of_ascii "MetaData zchar // c1
+{ // c2a
+  // c2b
+zchar[ // c3a
+  // c3b
+3 ]
+    // c5
+Pad // c6
+, // c7a
+  // c7b
+} // c8
+")).
+Eval vm_compute in ("<<<M3329>>>" ++ check (runes_of_ascii "MetaData float { uint8 BodyLength ,
+// c
+} MetaData charz { float32 trueish `a\` , i16 metadata `say ""hi""` , }")).
+Eval vm_compute in ("<<<M594>>>" ++ check (runes_of_ascii "  root packet _x{	@calculatedFrom( ""a\""b"" // packet A { u8 x, }
+) u128 @lengthOf(
+    Z9_ )  , }options { }
+")).
+Eval vm_compute in ("<<<M3015>>>" ++ check (runes_of_ascii "packet A {
   match k as n {
-    [1, 22, 007] : B,
+    [1, ""bb"", 007, ""d"", 5, ""f"", 7, ""h"", 9, ""j"", 11, ""l""] : B,
     2 : C
   },
 }")).
-Eval vm_compute in ("<<<M214>>>" ++ check (runes_of_ascii "
-MetaData string_ {Header
-    roots ,} MetaData
-MetaDataX	{ }")).
-Eval vm_compute in ("<<<M798>>>" ++ check (runes_of_ascii "packet A { Inner { match k as n { [1,22,007] : B, }, }, }")).
-Eval vm_compute in ("<<<M150>>>" ++ check (runes_of_ascii "options {float
-    = 4294967296 ;} options
+Eval vm_compute in ("<<<M2974>>>" ++ check (runes_of_ascii "packet A {
+  match k as n {
+    [""a"", ""bb"", ""c c"", ""d"", ""e"", ""f"", ""g"", ""h"", ""i""] : B,
+    2 : C
+  },
+}")).
+Eval vm_compute in ("<<<M342>>>" ++ check (runes_of_ascii "MetaData float {
+u8x matchKey,
+    }
+    MetaData string_ {
+i64_
+Pad , i64_ i64_
+, char[] u8x ,}
+")).
+Eval vm_compute in ("<<<M4317>>>" ++ check (runes_of_ascii "
+MetaData
+    _x { 
+// c
+
+f64
+	charz
+	`tab	here`
+, 
+}
+    options{ BodyLength
+
+=
+	""" ++ [233]%N ++ runes_of_ascii "t" ++ [233]%N ++ runes_of_ascii """ 
+;
+    }")).
+Eval vm_compute in ("<<<M751>>>" ++ check (runes_of_ascii "root packet trueish {
+@tag(255
+    )
+    // 50% %s
+    repeat f32a
+    leftPad  `doc` ,
+    }
+")).
+Eval vm_compute in ("<<<M2999>>>" ++ check (runes_of_ascii "packet A {
+  match k as n {
+    [1, 22, 007, 4, 5, 66, 7, 8, 9, 10, 11] : B
+    2 : C
+  },
+}")).
+Eval vm_compute in ("<<<M2980>>>" ++ check (runes_of_ascii "packet A {
+  match k as n {
+    [1, 22, ""c c"", 4, 5, ""f"", 7, 8, ""i""] : B,
+    2 : C
+  },
+}")).
+Eval vm_compute in ("<<<M451>>>" ++ check (runes_of_ascii "//	t
+options{ asx =
+    // trailing space 
+    ""x y""} options {}packet//x
+repeatCount{}
+")).
+Eval vm_compute in ("<<<M4004>>>" ++ check (runes_of_ascii "MetaData roots {
+}
+
+options {
+    options1 = '\x00'
+    crc = string;
+    Logon = '0'
+}")).
+Eval vm_compute in ("<<<M631>>>" ++ check (runes_of_ascii "packet  uint8x { //	t
+@calculatedFrom( ""a	b"" ) options1 { repeatCount `" ++ [233]%N ++ runes_of_ascii "` , }	,
+}
+")).
+Eval vm_compute in ("<<<M2922>>>" ++ check (runes_of_ascii "packet A {
+  match k as n {
+    [""a"", ""bb"", ""c c"", ""d"", ""e""] : B,
+    2 : C
+  },
+}")).
+Eval vm_compute in ("<<<M2083>>>" ++ check (runes_of_ascii "packet// packet A { u8 x, }
+repeatCount	{// packet A { u8 x, }
+@leftPad ( '\x00'")).
+Eval vm_compute in ("<<<M2942>>>" ++ check (runes_of_ascii "packet A {
+  match k as n {
+    [1, 22, ""c c"", 4, 5, ""f""] : B
+    2 : C
+  },
+}")).
+Eval vm_compute in ("<<<M3010>>>" ++ check (runes_of_ascii "packet A { Inner { match k as n { [1,22,007,4,5,66,7,8,9,10,11] : B, }, }, }")).
+Eval vm_compute in ("<<<M4158>>>" ++ check (runes_of_ascii "root packet P {
+    u16 a,
+    u32 Sum @calculatedFrom(""CR\
+        C32""),
+}")).
+Eval vm_compute in ("<<<M2862>>>" ++ check (runes_of_ascii "i16 i8 @rightPad `u8 x,` u16 0 [ MetaData repeat ] ) string @rightPad i8")).
+Eval vm_compute in ("<<<M41>>>" ++ check (runes_of_ascii "options { rootA=// trailing space 
+""// no comment"" string_ =""" ++ [28040; 24687]%N ++ runes_of_ascii """ ;	}
+")).
+Eval vm_compute in ("<<<M3408>>>" ++ check (runes_of_ascii "packet o { @tag( // c
+4294967296 ) options1 @lengthOf( u8x ) `" ++ [233]%N ++ runes_of_ascii "` , }")).
+Eval vm_compute in ("<<<M3474>>>" ++ check (runes_of_ascii "root packet P {
+    u16 a,
+    u32 Sum @calculatedFrom(""CRC32""),
+}
+")).
+Eval vm_compute in ("<<<M3619>>>" ++ check (runes_of_ascii "packet
+metadata
+{ repeat
+    f64 repeatCount
+	`tab	here` ,
+
+}
+
+")).
+Eval vm_compute in ("<<<M2314>>>" ++ check (runes_of_ascii "
+MetaData Pad{
+u32 rootA `line1
+line2` `line1
+line2` ,
+    }
+")).
+Eval vm_compute in ("<<<M1147>>>" ++ check (runes_of_ascii "// " ++ [128512]%N ++ runes_of_ascii " emoji
+options {// @lengthOf(
+int
+    =
+    3 ;
+    }
+
+")).
+Eval vm_compute in ("<<<M3037>>>" ++ check (runes_of_ascii "packet A {
+    B b `
+`,
+    B `
+`,
+    repeat B bs `
+`,
+}")).
+Eval vm_compute in ("<<<M885>>>" ++ check (runes_of_ascii "root
+    packet
+    len { }
+root packet i8i8 //
 { }
 ")).
-Eval vm_compute in ("<<<M1065>>>" ++ check (runes_of_ascii "packet A {
-    u8 x,    // c    u8 y,
-}")).
-Eval vm_compute in ("<<<M1883>>>" ++ check (runes_of_ascii "MetaData x_y_z {
-    string options1,
-}")).
-Eval vm_compute in ("<<<M945>>>" ++ check (runes_of_ascii "root packet A {
-    u8 x `a
-
-b`,
-}")).
-Eval vm_compute in ("<<<M1721>>>" ++ check (runes_of_ascii "options {
-    Packet = char[]
-}")).
-Eval vm_compute in ("<<<M161>>>" ++ check (runes_of_ascii "packet u {A
-    trueish , }
+Eval vm_compute in ("<<<M2321>>>" ++ check (runes_of_ascii "
+MetaData Pad{
+u32 rootA `line1
+line2` false
+    }
 ")).
-Eval vm_compute in ("<<<M1083>>>" ++ check (runes_of_ascii "packet A { // a
- u8 x, }")).
-Eval vm_compute in ("<<<M410>>>" ++ check (runes_of_ascii "options
-{
-matchKey =")).
-Eval vm_compute in ("<<<M986>>>" ++ check (runes_of_ascii "// c" ++ [160]%N ++ runes_of_ascii "
-packet A {
-}")).
-Eval vm_compute in ("<<<M37>>>" ++ check (runes_of_ascii "MetaData charz{ }")).
-Eval vm_compute in ("<<<M1071>>>" ++ check (runes_of_ascii "
+Eval vm_compute in ("<<<M2346>>>" ++ check (runes_of_ascii "
+MetaData na" ++ [239]%N ++ runes_of_ascii "ve{
+u32 rootA `line1
+line2` ,
+    }
+")).
+Eval vm_compute in ("<<<M4531>>>" ++ check (runes_of_ascii "MetaData
+zchar 
+    // c
+  {  zchar[ 3 
+]	Pad, }")).
+Eval vm_compute in ("<<<M978>>>" ++ check (runes_of_ascii "
+packet zchar{ zchar[
+65535
+] body `
+` , }
 
-  packet A {}")).
-Eval vm_compute in ("<<<M979>>>" ++ check (runes_of_ascii "// c" ++ [12288]%N)).
+")).
+Eval vm_compute in ("<<<M2292>>>" ++ check (runes_of_ascii "
+int8 Pad{
+u32 rootA `line1
+line2` ,
+    }
+")).
+Eval vm_compute in ("<<<M2248>>>" ++ check (runes_of_ascii "MetaData _x {string x `// not a comment` ,")).
+Eval vm_compute in ("<<<M2631>>>" ++ check (runes_of_ascii "packet A { match k as n { [[1]] : B }, }")).
+Eval vm_compute in ("<<<M2626>>>" ++ check (runes_of_ascii "packet A { match k as n { 1 : B,, }, }")).
+Eval vm_compute in ("<<<M4341>>>" ++ check (runes_of_ascii "MetaData asx {
+    zchar[42] chars,
+}")).
+Eval vm_compute in ("<<<M2661>>>" ++ check (runes_of_ascii "root packet A { } root packet B { }")).
+Eval vm_compute in ("<<<M4553>>>" ++ check (runes_of_ascii "packet u128 {
+    zchar[10] Z9_,
+}")).
+Eval vm_compute in ("<<<M2845>>>" ++ check (runes_of_ascii "sfMewQO/%J#-G,#$S5<5Z>/@\{4lA?)r")).
+Eval vm_compute in ("<<<M3146>>>" ++ check (runes_of_ascii "packet A {
+ u8 x `d" ++ [8233]%N ++ runes_of_ascii "`, // c" ++ [8233]%N ++ runes_of_ascii "
+}")).
+Eval vm_compute in ("<<<M2792>>>" ++ check (runes_of_ascii "," ++ [65533]%N ++ runes_of_ascii "Y" ++ [31; 14]%N ++ runes_of_ascii "F" ++ [65533; 28]%N ++ runes_of_ascii "O" ++ [65533; 65533; 1317; 65533; 65533; 65533]%N ++ runes_of_ascii "Dl5" ++ [606; 65533; 3; 0; 65533; 65533]%N ++ runes_of_ascii "R" ++ [65533]%N ++ runes_of_ascii "Yg")).
+Eval vm_compute in ("<<<M1267>>>" ++ check (runes_of_ascii "options
+    {matchKey = 3}")).
+Eval vm_compute in ("<<<M2788>>>" ++ check (runes_of_ascii "&" ++ [1984]%N ++ runes_of_ascii "	r7" ++ [65533; 65533; 65533]%N ++ runes_of_ascii "c" ++ [28]%N ++ runes_of_ascii "%" ++ [65533; 65533; 65533]%N ++ runes_of_ascii "r" ++ [65533; 23; 65533]%N ++ runes_of_ascii "(" ++ [65533]%N ++ runes_of_ascii "N\" ++ [12; 65533; 65533]%N)).
+Eval vm_compute in ("<<<M2327>>>" ++ check (runes_of_ascii "
+MetaData Pad{
+u32 roo")).
+Eval vm_compute in ("<<<M3192>>>" ++ check (runes_of_ascii "packet A {
+}// a// b")).
+Eval vm_compute in ("<<<M2559>>>" ++ check (runes_of_ascii ": , ; = ( ) [ ] { }")).
+Eval vm_compute in ("<<<M3119>>>" ++ check (runes_of_ascii "packet A {
+}
+// c" ++ [133]%N)).
+Eval vm_compute in ("<<<M4033>>>" ++ check (runes_of_ascii "
+
+  options
+
+{ }
+")).
+Eval vm_compute in ("<<<M3162>>>" ++ check (runes_of_ascii "packet A {
+}// c" ++ [12]%N)).
+Eval vm_compute in ("<<<M2821>>>" ++ check (runes_of_ascii "gLl39g\\""c5_2#z")).
+Eval vm_compute in ("<<<M2805>>>" ++ check (runes_of_ascii ":RkLR]4<tn|0`")).
+Eval vm_compute in ("<<<M763>>>" ++ check (runes_of_ascii " // a // b")).
+Eval vm_compute in ("<<<M2524>>>" ++ check (runes_of_ascii "// ab
+c")).
+Eval vm_compute in ("<<<M523>>>" ++ check (runes_of_ascii "
+ // c")).
+Eval vm_compute in ("<<<M2480>>>" ++ check (runes_of_ascii "roots")).
+Eval vm_compute in ("<<<M1114>>>" ++ check (runes_of_ascii " //x")).
+Eval vm_compute in ("<<<M2457>>>" ++ check (runes_of_ascii "u8x")).
+Eval vm_compute in ("<<<M767>>>" ++ check (runes_of_ascii "  ")).
+Eval vm_compute in ("<<<M2554>>>" ++ check (runes_of_ascii "_")).
